@@ -153,32 +153,37 @@ Qed.
 Lemma seq_b2n a (f : bool) : seq a (b2n f) = if f then [a] else [].
 Proof. destruct f; reflexivity. Qed.
 
+Lemma snd_prek k (l : list (list key * nat)) : map snd (map (prek k) l) = map snd l.
+Proof. rewrite map_map. reflexivity. Qed.
+
+Lemma seq_split3 b nf k : seq b (3 * nf + k) = seq b nf ++ seq (b + nf) nf ++ seq (b + 2 * nf) nf ++ seq (b + 3 * nf) k.
+Proof.
+  replace (3 * nf + k) with (nf + (nf + (nf + k))) by lia. rewrite !seq_app.
+  replace (b + nf + nf) with (b + 2 * nf) by lia. replace (b + 2 * nf + nf) with (b + 3 * nf) by lia. reflexivity.
+Qed.
+
 Lemma ids_block L b : ids (block_obj L b) = seq b (bcount L).
 Proof.
   unfold ids. rewrite tensors_block. unfold block_tensors, kf_tensors, bcount.
-  rewrite !map_app, map_map. cbn [prek snd]. rewrite !map_app, !snd_tt.
-  replace (3 * l_nf L + b2n (l_soap L) + b2n (l_graft L) + b2n (l_mom L) + b2n (l_filt L))
-    with (l_nf L + (l_nf L + (l_nf L + (b2n (l_soap L) + (b2n (l_graft L) + (b2n (l_mom L) + b2n (l_filt L))))))) by lia.
-  rewrite !seq_app, !seq_b2n. rewrite <- !app_assoc.
-  f_equal. f_equal.
-  replace (b + l_nf L + l_nf L) with (b + 2 * l_nf L) by lia.
-  replace (b + 2 * l_nf L + l_nf L) with (b + 3 * l_nf L) by lia.
-  destruct (l_soap L), (l_graft L), (l_mom L), (l_filt L); cbn [b2n map snd app]; rewrite ?map_app, ?snd_tt, ?Nat.add_0_r; cbn [map snd app];
-    repeat (f_equal; try lia).
+  rewrite <- !Nat.add_assoc. rewrite seq_split3.
+  destruct (l_soap L), (l_graft L), (l_mom L), (l_filt L); cbn [b2n Nat.add seq];
+    rewrite ?map_app, ?snd_prek, ?map_app, ?snd_tt; cbn [map snd]; rewrite <- ?app_assoc; cbn [app].
+  all: do 3 (apply (f_equal2 (@List.app nat)); [reflexivity|]); simpl app; repeat (apply (f_equal2 (@cons nat)); [lia|]); reflexivity.
 Qed.
+
+Lemma fst_prek k (l : list (list key * nat)) : map fst (map (prek k) l) = map (cons k) (map fst l).
+Proof. rewrite !map_map. reflexivity. Qed.
 
 Lemma paths_block L b : map fst (tensors (block_obj L b)) = bpaths L.
 Proof.
   rewrite tensors_block. unfold block_tensors, kf_tensors, bpaths.
-  rewrite !map_app, map_map. cbn [prek fst].
-  rewrite <- (map_map fst (cons (KStr "shampoo"))). rewrite !map_app, !fst_tt.
-  rewrite !map_app. unfold tpaths. rewrite !map_map. cbn [app].
-  f_equal. f_equal.
-  destruct (l_soap L), (l_graft L), (l_mom L), (l_filt L); cbn [map fst app]; rewrite ?map_app, ?fst_tt; unfold tpaths; rewrite ?map_map; reflexivity.
+  destruct (l_soap L), (l_graft L), (l_mom L), (l_filt L);
+    rewrite ?map_app, ?fst_prek, ?map_app, ?fst_tt; cbn [map fst]; unfold tpaths; rewrite ?map_map; cbn [app].
+  all: rewrite <- ?app_assoc; reflexivity.
 Qed.
 
 Lemma total_app a b : total (a ++ b) = total a + total b.
-Proof. induction a as [|x a IH]; [reflexivity|]. cbn [app total]. rewrite IH. lia. Qed.
+Proof. induction a as [|x a IH]; [reflexivity|]. cbn [List.app total]. rewrite IH. lia. Qed.
 
 Lemma ids_dict_cons k o items : ids (ODict ((k, o) :: items)) = ids o ++ ids (ODict items).
 Proof. unfold ids. rewrite tensors_dict_cons, map_app, map_map. reflexivity. Qed.
@@ -357,3 +362,1273 @@ Proof.
   - revert b. induction Ls as [|nL Ls IH]; intros b; cbn [entries]; constructor; [apply pstate_block|apply IH].
   - destruct head; repeat constructor.
 Qed.
+
+(* ========================================================================================== *)
+(* C. values of the state tensors <-> block state                                               *)
+
+Lemma firstn_app_len {A} (a x : list A) n : List.length a = n -> firstn n (a ++ x) = a.
+Proof. intros <-. rewrite firstn_app, Nat.sub_diag, firstn_all. cbn [firstn]. apply app_nil_r. Qed.
+Lemma skipn_app_len {A} (a x : list A) n : List.length a = n -> skipn n (a ++ x) = x.
+Proof. intros <-. rewrite skipn_app, Nat.sub_diag, skipn_all. reflexivity. Qed.
+
+Lemma map_nth_seq {A} (l : list A) d : map (fun i => nth i l d) (seq 0 (List.length l)) = l.
+Proof.
+  induction l as [|a l IH]; [reflexivity|]. cbn [List.length seq map nth]. f_equal.
+  rewrite map_seq_shift. exact IH.
+Qed.
+
+Lemma map_add_seq b n : map (fun j => b + j) (seq 0 n) = seq b n.
+Proof. rewrite <- (snd_tt [] b n). unfold tt. rewrite map_map. reflexivity. Qed.
+
+Lemma map_nth_seq_off {A} (l : list A) d n : map (fun j => nth (j - n) l d) (seq n (List.length l)) = l.
+Proof.
+  rewrite <- map_add_seq, map_map. rewrite <- (map_nth_seq l d) at 2. apply map_ext. intros j. f_equal. lia.
+Qed.
+
+Section Codec.
+  Context {F : Type}.
+  Notation bstateF := (bstate (F:=F)).
+  Notation tvalF := (tval (F:=F)).
+
+  (* a block state has the shape its layout says: one factor / inverse root (eigenbasis) / flag per Kronecker
+     factor; tensors that were never allocated are the empty vector of the C01 model *)
+  Definition conf (L : blay) (st : bstateF) : Prop :=
+    List.length (s_factors st) = l_nf L /\ List.length (s_inv st) = l_nf L /\ List.length (s_isdiag st) = l_nf L
+    /\ (l_soap L = false -> s_coreig st = []) /\ (l_graft L = false -> s_graft st = [])
+    /\ (l_mom L = false -> s_mom st = []) /\ (l_filt L = false -> s_filt st = []).
+
+  Lemma bvals_length L st : conf L st -> List.length (bvals L st) = bcount L.
+  Proof.
+    intros (H1 & H2 & H3 & _). unfold bvals, bcount. rewrite !app_length, !map_length. unfold mat, vec in *. rewrite H1, H2, H3.
+    destruct (l_soap L), (l_graft L), (l_mom L), (l_filt L); cbn [List.length b2n]; lia.
+  Qed.
+
+  Lemma as_mat_VMat (l : list (list (list F))) : map as_mat (map (@VMat F) l) = l.
+  Proof. rewrite map_map. cbn [as_mat]. apply map_id. Qed.
+  Lemma as_bool_VBool (l : list bool) : map as_bool (map (@VBool F) l) = l.
+  Proof. rewrite map_map. cbn [as_bool]. apply map_id. Qed.
+
+  Theorem bdec_bvals L st : conf L st -> bdec L (bvals L st) = st.
+  Proof.
+    intros (H1 & H2 & H3 & H4 & H5 & H6 & H7). destruct st as [fs iv dg ce gr fi mo]. cbn [s_factors s_inv s_isdiag s_coreig s_graft s_mom s_filt] in *.
+    unfold bdec, bvals. cbn [s_factors s_inv s_isdiag s_coreig s_graft s_mom s_filt].
+    rewrite (firstn_app_len (map VMat fs)) by (rewrite map_length; exact H1).
+    rewrite (skipn_app_len (map VMat fs)) by (rewrite map_length; exact H1).
+    rewrite (firstn_app_len (map VBool dg)) by (rewrite map_length; exact H3).
+    rewrite (skipn_app_len (map VBool dg)) by (rewrite map_length; exact H3).
+    rewrite (firstn_app_len (map VMat iv)) by (rewrite map_length; exact H2).
+    rewrite (skipn_app_len (map VMat iv)) by (rewrite map_length; exact H2).
+    rewrite !as_mat_VMat, as_bool_VBool.
+    destruct (l_soap L), (l_graft L), (l_mom L), (l_filt L); cbn [opt_vec List.app hd tl as_vec];
+      rewrite ?(H4 eq_refl), ?(H5 eq_refl), ?(H6 eq_refl), ?(H7 eq_refl); reflexivity.
+  Qed.
+
+  Lemma bdec_firstn L st rest : conf L st -> bdec L (firstn (bcount L) (bvals L st ++ rest)) = st.
+  Proof. intros H. rewrite firstn_app_len by (apply bvals_length; exact H). apply bdec_bvals. exact H. Qed.
+End Codec.
+
+(* ========================================================================================== *)
+(* D. save / load                                                                               *)
+
+Lemma map_pair_combine {A B C D} (f : A -> C) (g : B -> D) (l : list (A * B)) :
+  map (fun x => (f (fst x), g (snd x))) l = combine (map f (map fst l)) (map g (map snd l)).
+Proof. induction l as [|[a b] l IH]; [reflexivity|]. cbn [map combine fst snd]. rewrite IH. reflexivity. Qed.
+
+Lemma map_fst_combine {A B} (a : list A) (b : list B) : List.length a = List.length b -> map fst (combine a b) = a.
+Proof. revert b. induction a as [|x a IH]; intros [|y b] H; try discriminate; [reflexivity|]. cbn [combine map fst]. rewrite IH; [reflexivity|]. cbn in H. lia. Qed.
+Lemma map_snd_combine {A B} (a : list A) (b : list B) : List.length a = List.length b -> map snd (combine a b) = b.
+Proof. revert b. induction a as [|x a IH]; intros [|y b] H; try discriminate; [reflexivity|]. cbn [combine map snd]. rewrite IH; [reflexivity|]. cbn in H. lia. Qed.
+
+Lemma combine_fst_prefix {A B} (a : list A) (b : list B) : exists t, a = map fst (combine a b) ++ t.
+Proof.
+  revert b. induction a as [|x a IH]; intros b; [exists []; reflexivity|].
+  destruct b as [|y b]; [exists (x :: a); reflexivity|]. destruct (IH b) as (t & E). exists t. cbn [combine map fst List.app]. rewrite <- E. reflexivity.
+Qed.
+
+Section SaveLoad.
+  Context {F : Type}.
+  Variable fkey : Type.
+  Variable fkey_eqb : fkey -> fkey -> bool.
+  Variable dumps : list key -> fkey.
+  Variable loads : fkey -> option (list key).
+  Hypothesis fkey_eqb_eq : forall a b, fkey_eqb a b = true <-> a = b.
+  Hypothesis loads_dumps : forall p, loads (dumps p) = Some p.
+
+  Notation flat := (flatten fkey fkey_eqb dumps).
+  Notation keysof := (keys_of fkey fkey_eqb dumps).
+  Notation tvalF := (tval (F:=F)).
+
+  Lemma fkey_eqb_refl k : fkey_eqb k k = true.
+  Proof. apply fkey_eqb_eq. reflexivity. Qed.
+
+  Lemma ppaths_length Ls head : List.length (ppaths Ls head) = total Ls + b2n head.
+  Proof.
+    rewrite <- (paths_pobj Ls head 0), map_length, <- (map_length snd). fold (ids (ODict (pobj_at Ls head 0))).
+    rewrite ids_pobj. apply seq_length.
+  Qed.
+
+  (* the flat dict of a parameter state: one entry per state tensor, under json.dumps of its access path *)
+  Lemma flat_pobj Ls head b : NoDup (map fst Ls) ->
+    flat (extract (pobj_at Ls head b)) = combine (map dumps (ppaths Ls head)) (map LT (seq b (total Ls + b2n head))).
+  Proof.
+    intros Hn. set (po := pobj_at Ls head b).
+    pose proof (pstate_pobj Ls head b) as Hp. pose proof (wf_pobj Ls head b Hn) as Hw. fold po in Hp, Hw.
+    assert (Hsd : sd false (ODict po) = Some (Node (extract po))) by (rewrite <- (extract_eq_sd _ Hp); reflexivity).
+    pose proof (wf_sd false _ Hw _ Hsd) as Hwft.
+    destruct (flatten_injective fkey fkey_eqb dumps loads fkey_eqb_eq loads_dumps (extract po) Hwft) as (_ & E & _ & _).
+    rewrite E. unfold dpaths. rewrite (paths_sd_false _ _ Hsd), map_map. cbn [fst snd].
+    rewrite (map_pair_combine dumps LT). unfold po. rewrite paths_pobj. fold (ids (ODict (pobj_at Ls head b))). rewrite ids_pobj. reflexivity.
+  Qed.
+
+  Lemma keys_pobj Ls head b : NoDup (map fst Ls) -> keysof (pobj_at Ls head b) = map dumps (ppaths Ls head).
+  Proof.
+    intros Hn. unfold keys_of. rewrite (flat_pobj Ls head b Hn). apply map_fst_combine.
+    rewrite !map_length, seq_length. apply ppaths_length.
+  Qed.
+
+  Lemma missing_none (l l' : list fkey) : (forall k, In k l -> In k l') ->
+    existsb (fun k => negb (existsb (fkey_eqb k) l')) l = false.
+  Proof.
+    intros H. destruct (existsb _ l) eqn:E; [|reflexivity]. apply existsb_exists in E as (k & Hk & Hn).
+    apply negb_true_iff in Hn. assert (existsb (fkey_eqb k) l' = true); [|congruence].
+    apply existsb_exists. exists k. split; [auto|apply fkey_eqb_refl].
+  Qed.
+
+  Lemma missing_some (l l' : list fkey) k : In k l -> ~ In k l' ->
+    existsb (fun k => negb (existsb (fkey_eqb k) l')) l = true.
+  Proof.
+    intros H Hn. apply existsb_exists. exists k. split; [exact H|]. apply negb_true_iff.
+    destruct (existsb (fkey_eqb k) l') eqn:E; [|reflexivity]. apply existsb_exists in E as (k' & Hk' & E). apply fkey_eqb_eq in E. subst. contradiction.
+  Qed.
+
+  (* loading a parameter's own saved entry into a state of the same layout: every state tensor receives the saved
+     value - whatever the layout (blocks without Kronecker factors included: C16_restore_roundtrip) *)
+  Theorem load_param_own Ls head (old vals : list tvalF) :
+    NoDup (map fst Ls) -> List.length vals = total Ls + b2n head ->
+    load_param fkey fkey_eqb dumps loads (pobj_at Ls head 0) old (combine (keysof (pobj_at Ls head 0)) vals) = Ok vals.
+  Proof.
+    intros Hn Hlen. set (n := total Ls + b2n head) in *.
+    assert (HK : keysof (pobj_at Ls head 0) = map dumps (ppaths Ls head)) by (apply keys_pobj; exact Hn).
+    assert (HKl : List.length (map dumps (ppaths Ls head)) = n) by (rewrite map_length; apply ppaths_length).
+    unfold load_param. rewrite HK.
+    rewrite (map_fst_combine _ vals) by (rewrite HKl, Hlen; reflexivity).
+    rewrite missing_none by auto.
+    rewrite ids_pobj, seq_length. fold n.
+    rewrite combine_length, HKl, Hlen, Nat.min_id.
+    pose proof (flat_pobj Ls head n Hn) as Hf. fold n in Hf. rewrite <- Hf. clear Hf.
+    destruct (restore_roundtrip fkey fkey_eqb dumps loads fkey_eqb_eq loads_dumps true sz1
+                (pobj_at Ls head 0) (pobj_at Ls head n) idheap) as (d & h' & Hu & Hr & Hpost).
+    - apply pstate_pobj.
+    - apply pstate_pobj.
+    - apply same_pobj.
+    - apply wf_pobj. exact Hn.
+    - intros k. reflexivity.
+    - rewrite ids_pobj. apply seq_NoDup.
+    - rewrite !ids_pobj. fold n. intros x Hx Hx'. apply in_seq in Hx, Hx'. lia.
+    - rewrite Hu, Hr. f_equal.
+      destruct Hpost as (_ & _ & _ & Hv & _ & _). rewrite !ids_pobj in Hv. fold n in Hv.
+      rewrite (map_snd_combine _ vals) by (rewrite HKl, Hlen; reflexivity).
+      rewrite <- (map_map h' (fun l => let t := tok l in if Nat.ltb t n then nth t old dflt else nth (t - n) vals dflt)).
+      rewrite Hv, map_map. transitivity (map (fun j => nth (j - n) vals dflt) (seq n (List.length vals))); [|apply map_nth_seq_off].
+      rewrite Hlen.
+      apply map_ext_in. intros j Hj. apply in_seq in Hj. unfold idheap, tok. cbn zeta. rewrite Nat2Z.id.
+      destruct (Nat.ltb j n) eqn:E; [apply Nat.ltb_lt in E; lia|reflexivity].
+  Qed.
+
+  (* ---------------------------------------------------------------- one group *)
+  Notation cgroupF := (cgroup (F:=F)).
+  Notation pblockF := (pblock (F:=F)).
+
+  (* same constructor output, same parameter values *)
+  Definition bsim (b bk : pblockF) : Prop :=
+    pb_owner b = pb_owner bk /\ pb_name b = pb_name bk /\ b_dims (pb_blk b) = b_dims (pb_blk bk) /\ b_w (pb_blk b) = b_w (pb_blk bk).
+  Definition gsim (g gk : cgroupF) : Prop :=
+    g_ctor g = g_ctor gk /\ g_hasmom g = g_hasmom gk /\ g_hasfilt g = g_hasfilt gk /\ g_pids g = g_pids gk
+    /\ Forall2 bsim (g_blocks g) (g_blocks gk).
+  Definition gconf (g : cgroupF) : Prop := Forall (fun pb => conf (blay_of g pb) (b_st (pb_blk pb))) (g_blocks g).
+
+  Definition mergeP (P : nat -> bool) (bs bsk : list pblockF) : list pblockF :=
+    map2 (fun b bk => if P (pb_owner b) then bk else b) bs bsk.
+  Definition headP (P : nat -> bool) (g : cgroupF) : bool := match g_pids g with p :: _ => P p | [] => false end.
+  (* g with the blocks (and STEP) of the parameters selected by P taken from gk *)
+  Definition absorbP (P : nat -> bool) (g gk : cgroupF) : cgroupF :=
+    mkCG (g_ctor g) (g_opts g) (g_hasmom g) (g_hasfilt g) (g_pids g) (mergeP P (g_blocks g) (g_blocks gk))
+         (if headP P g then g_step gk else g_step g) (g_vol g).
+
+  Lemma blay_sim g gk b bk : gsim g gk -> bsim b bk -> blay_of g b = blay_of gk bk.
+  Proof. intros (H1 & H2 & H3 & _) (_ & _ & Hd & _). unfold blay_of, lay_of. rewrite H1, H2, H3, Hd. reflexivity. Qed.
+
+  Lemma owns_sim pid b bk : bsim b bk -> owns pid b = owns pid bk.
+  Proof. intros (H & _). unfold owns. rewrite H. reflexivity. Qed.
+
+  Lemma playout_sim g gk pid : gsim g gk -> playout g pid = playout gk pid.
+  Proof.
+    intros Hs. pose proof Hs as (_ & _ & _ & _ & HF). unfold playout.
+    induction HF as [|b bk bs bsk Hb _ IH]; [reflexivity|]. cbn [filter]. rewrite (owns_sim pid b bk Hb).
+    destruct (owns pid bk); cbn [map]; rewrite IH; [|reflexivity]. rewrite (blay_sim g gk b bk Hs Hb). destruct Hb as (_ & -> & _). reflexivity.
+  Qed.
+
+  Lemma is_head_sim g gk pid : gsim g gk -> is_head g pid = is_head gk pid.
+  Proof. intros (_ & _ & _ & H & _). unfold is_head. rewrite H. reflexivity. Qed.
+
+  Lemma in_state_sim g gk pid : gsim g gk -> in_state g pid = in_state gk pid.
+  Proof.
+    intros Hs. unfold in_state. rewrite (is_head_sim g gk pid Hs). f_equal.
+    destruct Hs as (_ & _ & _ & _ & HF). induction HF as [|b bk bs bsk Hb _ IH]; [reflexivity|].
+    cbn [existsb]. rewrite (owns_sim pid b bk Hb), IH. reflexivity.
+  Qed.
+
+  Lemma pobj_sim g gk pid b : gsim g gk -> pobj g pid b = pobj gk pid b.
+  Proof. intros Hs. unfold pobj. rewrite (playout_sim g gk pid Hs), (is_head_sim g gk pid Hs). reflexivity. Qed.
+
+  Lemma pvals_length g pid : gconf g -> List.length (pvals g pid) = total (playout g pid) + b2n (is_head g pid).
+  Proof.
+    intros Hc. unfold pvals, playout. rewrite app_length. f_equal; [|destruct (is_head g pid); reflexivity].
+    unfold gconf in Hc. induction Hc as [|pb bs Hpb _ IH]; [reflexivity|]. cbn [filter].
+    destruct (owns pid pb); [|exact IH]. cbn [flat_map map total snd]. rewrite app_length, IH, (bvals_length _ _ Hpb). reflexivity.
+  Qed.
+
+  Lemma set_st_sim b bk : bsim b bk -> set_st b (b_st (pb_blk bk)) = bk.
+  Proof.
+    destruct b as [o n [d w st]], bk as [ok nk [dk wk stk]]. unfold bsim, set_st. cbn [pb_owner pb_name pb_blk b_dims b_w b_st].
+    intros (-> & -> & -> & ->). reflexivity.
+  Qed.
+
+  Lemma put_get g gk pid : gsim g gk -> forall bs bsk, Forall2 bsim bs bsk ->
+    Forall (fun pb => conf (blay_of gk pb) (b_st (pb_blk pb))) bsk -> forall rest,
+    put_blocks g pid bs (flat_map (fun pb => bvals (blay_of gk pb) (b_st (pb_blk pb))) (filter (owns pid) bsk) ++ rest)
+    = (mergeP (fun o => Nat.eqb o pid) bs bsk, rest).
+  Proof.
+    intros Hs bs bsk HF. induction HF as [|b bk bs bsk Hb _ IH]; intros Hc rest; [reflexivity|].
+    inversion Hc as [|? ? Hcb Hcr]; subst. cbn [put_blocks filter mergeP map2]. fold (mergeP (fun o => Nat.eqb o pid) bs bsk).
+    rewrite <- (owns_sim pid b bk Hb). change (Nat.eqb (pb_owner b) pid) with (owns pid b).
+    destruct (owns pid b) eqn:E.
+    - cbn [flat_map]. rewrite <- app_assoc, (blay_sim g gk b bk Hs Hb).
+      rewrite (skipn_app_len (bvals (blay_of gk bk) (b_st (pb_blk bk)))) by (apply bvals_length; exact Hcb).
+      rewrite (IH Hcr rest). rewrite (bdec_firstn _ _ _ Hcb). rewrite (set_st_sim b bk Hb). reflexivity.
+    - rewrite (IH Hcr rest). reflexivity.
+  Qed.
+
+  Lemma set_pvals_own g gk pid : gsim g gk -> gconf gk ->
+    set_pvals g pid (pvals gk pid) = absorbP (fun o => Nat.eqb o pid) g gk.
+  Proof.
+    intros Hs Hc. pose proof Hs as (_ & _ & _ & Hp & HF). unfold set_pvals, pvals.
+    rewrite (put_get g gk pid Hs _ _ HF Hc). unfold absorbP. f_equal.
+    rewrite <- (is_head_sim g gk pid Hs). unfold headP, is_head. destruct (g_pids g) as [|p r]; [reflexivity|].
+    destruct (Nat.eqb p pid); reflexivity.
+  Qed.
+
+  Lemma gsim_absorb P g gk : gsim g gk -> gsim (absorbP P g gk) gk.
+  Proof.
+    intros (H1 & H2 & H3 & H4 & HF). unfold gsim, absorbP. cbn [g_ctor g_hasmom g_hasfilt g_pids g_blocks]. repeat (split; [assumption|]).
+    unfold mergeP. induction HF as [|b bk bs bsk Hb _ IH]; cbn [map2]; constructor; [|exact IH].
+    destruct (P (pb_owner b)); [|exact Hb]. repeat split; reflexivity.
+  Qed.
+
+  Lemma mergeP_comp P Q bs bsk : Forall2 bsim bs bsk ->
+    mergeP Q (mergeP P bs bsk) bsk = mergeP (fun o => Q o || P o) bs bsk.
+  Proof.
+    unfold mergeP. induction 1 as [|b bk bs bsk Hb _ IH]; [reflexivity|]. cbn [map2]. rewrite IH. f_equal.
+    destruct Hb as (Ho & _). destruct (P (pb_owner b)) eqn:E.
+    - rewrite orb_true_r. destruct (Q (pb_owner bk)); reflexivity.
+    - rewrite orb_false_r. reflexivity.
+  Qed.
+
+  Lemma mergeP_ext P Q bs bsk : (forall o, P o = Q o) -> mergeP P bs bsk = mergeP Q bs bsk.
+  Proof. intros H. unfold mergeP. revert bsk. induction bs as [|b bs IH]; intros [|bk bsk]; cbn [map2]; auto. rewrite H, IH. reflexivity. Qed.
+
+  Lemma mergeP_false bs bsk : Forall2 bsim bs bsk -> mergeP (fun _ => false) bs bsk = bs.
+  Proof. unfold mergeP. induction 1; cbn [map2]; [reflexivity|]. f_equal. assumption. Qed.
+
+  Lemma mergeP_all P bs bsk : Forall2 bsim bs bsk -> (forall b, In b bs -> P (pb_owner b) = true) -> mergeP P bs bsk = bsk.
+  Proof.
+    unfold mergeP. induction 1 as [|b bk bs bsk Hb _ IH]; intros Hall; cbn [map2]; [reflexivity|].
+    rewrite (Hall b (or_introl eq_refl)). f_equal. apply IH. intros b' Hb'. apply Hall. right. exact Hb'.
+  Qed.
+
+  Lemma absorbP_comp P Q g gk : gsim g gk ->
+    absorbP Q (absorbP P g gk) gk = absorbP (fun o => Q o || P o) g gk.
+  Proof.
+    intros (_ & _ & _ & _ & HF). unfold absorbP. cbn [g_ctor g_opts g_hasmom g_hasfilt g_pids g_blocks g_step g_vol].
+    rewrite (mergeP_comp P Q _ _ HF). f_equal.
+    unfold headP. cbn [g_pids]. destruct (g_pids g) as [|p r]; [reflexivity|].
+    destruct (P p); [rewrite orb_true_r; destruct (Q p); reflexivity|rewrite orb_false_r; reflexivity].
+  Qed.
+
+  Lemma absorbP_ext P Q g gk : (forall o, P o = Q o) -> absorbP P g gk = absorbP Q g gk.
+  Proof.
+    intros H. unfold absorbP. rewrite (mergeP_ext P Q _ _ H). f_equal. unfold headP. destruct (g_pids g); [reflexivity|]. rewrite H. reflexivity.
+  Qed.
+
+  Lemma absorbP_false g gk : gsim g gk -> absorbP (fun _ => false) g gk = g.
+  Proof.
+    intros (_ & _ & _ & _ & HF). unfold absorbP. rewrite (mergeP_false _ _ HF). unfold headP.
+    destruct g as [c o m f p b t v]. cbn [g_ctor g_opts g_hasmom g_hasfilt g_pids g_blocks g_step g_vol]. destruct p; reflexivity.
+  Qed.
+
+  (* ---------------------------------------------------------------- the whole optimizer *)
+  Variable k2p : list (string * nat).
+  Hypothesis names_nd : NoDup (map fst k2p).
+  Hypothesis pids_nd : NoDup (map snd k2p).
+
+  Notation opt_stateF := (opt_state (F:=F)).
+  Notation lentry := (load_entry fkey fkey_eqb dumps loads k2p).
+  Notation lstate := (load_state fkey fkey_eqb dumps loads k2p).
+  Notation lgroups := (load_groups k2p).
+  Notation lckpt := (load_ckpt fkey fkey_eqb dumps loads k2p).
+  Notation sparam := (save_param fkey fkey_eqb dumps).
+  Notation sckpt := (save_ckpt fkey fkey_eqb dumps k2p).
+
+  Lemma pydict_id {K V} (eqb : K -> K -> bool) (Heq : forall a b, eqb a b = true <-> a = b) (l : list (K * V)) :
+    NoDup (map fst l) -> pydict eqb l = l.
+  Proof. intros H. unfold pydict. rewrite (dor_fresh eqb Heq [] l H); [reflexivity|]. intros k _ []. Qed.
+
+  Definition swap (x : string * nat) : nat * string := (snd x, fst x).
+
+  Lemma k2p_map_id : k2p_map k2p = k2p.
+  Proof. apply (pydict_id String.eqb String.eqb_eq). exact names_nd. Qed.
+  Lemma inv_raw_id : inv_raw k2p = map swap k2p.
+  Proof. unfold inv_raw. apply (pydict_id Nat.eqb Nat.eqb_eq). rewrite map_map. exact pids_nd. Qed.
+  Lemma inv_map_id : inv_map k2p = map swap k2p.
+  Proof. unfold inv_map. rewrite k2p_map_id. apply (pydict_id Nat.eqb Nat.eqb_eq). rewrite map_map. exact pids_nd. Qed.
+
+  (* the name of a parameter ("" if it has none) *)
+  Definition nm (pid : nat) : string := match dget Nat.eqb pid (inv_raw k2p) with Some n => n | None => "" end.
+
+  Lemma named_lookup pid : In pid (map snd k2p) ->
+    dget Nat.eqb pid (inv_raw k2p) = Some (nm pid) /\ dget Nat.eqb pid (inv_map k2p) = Some (nm pid)
+    /\ dget String.eqb (nm pid) (k2p_map k2p) = Some pid.
+  Proof.
+    intros H. apply in_map_iff in H as ([n p] & E & Hin). cbn [snd] in E. subst p.
+    assert (H1 : dget Nat.eqb pid (map swap k2p) = Some n).
+    { apply (dget_in Nat.eqb Nat.eqb_eq); [rewrite map_map; exact pids_nd|]. apply in_map_iff. exists (n, pid). auto. }
+    unfold nm. rewrite inv_raw_id, inv_map_id, k2p_map_id, H1. repeat split.
+    apply (dget_in String.eqb String.eqb_eq); assumption.
+  Qed.
+
+  Lemma nm_inj p q : In p (map snd k2p) -> In q (map snd k2p) -> nm p = nm q -> p = q.
+  Proof.
+    intros Hp Hq E. destruct (named_lookup p Hp) as (_ & _ & H1). destruct (named_lookup q Hq) as (_ & _ & H2).
+    rewrite E in H1. congruence.
+  Qed.
+
+  Definition gkey (g : cgroup (F:=F)) : string := join_slash (ssort (map nm (g_pids g))).
+
+  Record wf_state (s : opt_stateF) : Prop := mkWF {
+    wf_named : forall g pid, In g s -> In pid (g_pids g) -> In pid (map snd k2p);
+    wf_pids : NoDup (List.concat (map (@g_pids F) s));
+    wf_nonempty : forall g, In g s -> g_pids g <> [];
+    wf_owner : forall g pb, In g s -> In pb (g_blocks g) -> In (pb_owner pb) (g_pids g);
+    wf_bnames : forall g pid, In g s -> NoDup (map fst (playout g pid));
+    wf_conf : forall g, In g s -> gconf g;
+    wf_gkeys : NoDup (map gkey s) }.
+
+  Lemma with_group_hit pid (f : cgroup (F:=F) -> result (cgroup (F:=F))) (g : cgroup (F:=F)) r : in_state g pid = true ->
+    with_group pid f (g :: r) = match f g return result (opt_state (F:=F)) with Ok g' => Ok (g' :: r) | Raise e => Raise e end.
+  Proof. intros H. cbn [with_group]. rewrite H. reflexivity. Qed.
+  Lemma with_group_miss pid (f : cgroup (F:=F) -> result (cgroup (F:=F))) (g : cgroup (F:=F)) r : in_state g pid = false ->
+    with_group pid f (g :: r) = match with_group pid f r return result (opt_state (F:=F)) with Ok r' => Ok (g :: r') | Raise e => Raise e end.
+  Proof. intros H. cbn [with_group]. rewrite H. reflexivity. Qed.
+
+  Lemma load_state_app s a b :
+    lstate s (a ++ b) = match lstate s a return result (opt_state (F:=F)) with Ok s1 => lstate s1 b | Raise e => Raise e end.
+  Proof.
+    revert s. induction a as [|e a IH]; intros s; [reflexivity|]. cbn [List.app load_state].
+    destruct (lentry s e) as [s1|err]; [apply IH|reflexivity].
+  Qed.
+
+  Lemma load_state_skip g es : forall r,
+    (forall e pid, In e es -> dget String.eqb (fst e) (k2p_map k2p) = Some pid -> in_state g pid = false) ->
+    lstate (g :: r) es = match lstate r es return result (opt_state (F:=F)) with Ok r' => Ok (g :: r') | Raise e => Raise e end.
+  Proof.
+    induction es as [|e es IH]; intros r H; [reflexivity|]. cbn [load_state].
+    unfold load_entry. destruct (dget String.eqb (fst e) (k2p_map k2p)) as [pid|] eqn:E; [|reflexivity].
+    rewrite with_group_miss by (apply (H e pid); [left; reflexivity|exact E]).
+    destruct (with_group pid _ r) as [r'|err]; [|reflexivity].
+    apply IH. intros e' pid' Hin. apply H. right. exact Hin.
+  Qed.
+
+  Definition own_entries (gk : cgroup (F:=F)) : list (string * list (fkey * tvalF)) :=
+    map (fun pid => (nm pid, sparam gk pid)) (filter (in_state gk) (g_pids gk)).
+  Definition Pof (pids : list nat) : nat -> bool := fun o => existsb (Nat.eqb o) pids.
+
+  Lemma load_group_own gk : gconf gk -> forall pids g r, gsim g gk ->
+    (forall pid, In pid pids -> in_state gk pid = true /\ In pid (map snd k2p) /\ NoDup (map fst (playout gk pid))) ->
+    lstate (g :: r) (map (fun pid => (nm pid, sparam gk pid)) pids) = Ok (absorbP (Pof pids) g gk :: r).
+  Proof.
+    intros Hc. induction pids as [|pid ps IH]; intros g r Hs Hall.
+    - cbn [map load_state]. rewrite (absorbP_ext (Pof []) (fun _ => false)) by reflexivity. rewrite (absorbP_false g gk Hs). reflexivity.
+    - destruct (Hall pid (or_introl eq_refl)) as (Hin & Hnamed & Hnd).
+      destruct (named_lookup pid Hnamed) as (_ & _ & Hl).
+      cbn [map load_state]. unfold load_entry. cbn [fst snd]. rewrite Hl.
+      rewrite with_group_hit by (rewrite (in_state_sim g gk pid Hs); exact Hin).
+      rewrite (pobj_sim g gk pid 0 Hs). unfold save_param, pobj.
+      rewrite (load_param_own (playout gk pid) (is_head gk pid) (pvals g pid) (pvals gk pid) Hnd (pvals_length gk pid Hc)).
+      rewrite (set_pvals_own g gk pid Hs Hc).
+      rewrite (IH _ r (gsim_absorb _ g gk Hs)) by (intros p Hp; apply Hall; right; exact Hp).
+      rewrite (absorbP_comp _ _ g gk Hs). f_equal. f_equal. apply absorbP_ext. intros o. unfold Pof. cbn [existsb]. apply orb_comm.
+  Qed.
+
+  Lemma in_state_pids (g : cgroup (F:=F)) pid :
+    (forall pb, In pb (g_blocks g) -> In (pb_owner pb) (g_pids g)) -> in_state g pid = true -> In pid (g_pids g).
+  Proof.
+    intros Ho H. unfold in_state in H. apply orb_true_iff in H as [H|H].
+    - unfold is_head in H. destruct (g_pids g) as [|p r]; [discriminate|]. apply Nat.eqb_eq in H. left. exact H.
+    - apply existsb_exists in H as (pb & Hpb & E). unfold owns in E. apply Nat.eqb_eq in E. subst. apply Ho. exact Hpb.
+  Qed.
+
+  Definition graft (g gk : cgroup (F:=F)) : cgroup (F:=F) :=
+    mkCG (g_ctor g) (g_opts g) (g_hasmom g) (g_hasfilt g) (g_pids g) (g_blocks gk) (g_step gk) (g_vol g).
+
+  Lemma absorb_all g gk : gsim g gk -> g_pids gk <> [] ->
+    (forall pb, In pb (g_blocks gk) -> In (pb_owner pb) (g_pids gk)) ->
+    absorbP (Pof (filter (in_state gk) (g_pids gk))) g gk = graft g gk.
+  Proof.
+    intros Hs Hne Ho. pose proof Hs as (_ & _ & _ & Hp & HF). unfold absorbP, graft. f_equal.
+    - apply mergeP_all; [exact HF|]. intros b Hb.
+      assert (exists bk, In bk (g_blocks gk) /\ pb_owner b = pb_owner bk) as (bk & Hbk & E).
+      { clear - HF Hb. induction HF as [|x y l l' Hxy _ IH]; [destruct Hb|]. destruct Hb as [<-|Hb].
+        - exists y. split; [left; reflexivity|apply Hxy].
+        - destruct (IH Hb) as (bk & H1 & H2). exists bk. split; [right; exact H1|exact H2]. }
+      unfold Pof. apply existsb_exists. exists (pb_owner b). split; [|apply Nat.eqb_refl].
+      apply filter_In. split; [rewrite E; apply Ho; exact Hbk|].
+      unfold in_state. apply orb_true_iff. right. apply existsb_exists. exists bk. split; [exact Hbk|]. unfold owns. rewrite E. apply Nat.eqb_refl.
+    - unfold headP. rewrite Hp. destruct (g_pids gk) as [|p r] eqn:E; [contradiction|].
+      assert (Hh : in_state gk p = true) by (unfold in_state, is_head; rewrite E, Nat.eqb_refl; reflexivity).
+      assert (Pof (filter (in_state gk) (p :: r)) p = true); [|rewrite H; reflexivity].
+      unfold Pof. apply existsb_exists. exists p. split; [|apply Nat.eqb_refl]. apply filter_In. split; [left; reflexivity|exact Hh].
+  Qed.
+
+  Lemma load_state_own : forall s sk, Forall2 gsim s sk ->
+    (forall gk, In gk sk -> gconf gk) ->
+    (forall gk pid, In gk sk -> In pid (g_pids gk) -> In pid (map snd k2p)) ->
+    (forall gk pid, In gk sk -> NoDup (map fst (playout gk pid))) ->
+    (forall gk pb, In gk sk -> In pb (g_blocks gk) -> In (pb_owner pb) (g_pids gk)) ->
+    NoDup (List.concat (map (@g_pids F) sk)) ->
+    lstate s (flat_map own_entries sk)
+    = Ok (map2 (fun g gk => absorbP (Pof (filter (in_state gk) (g_pids gk))) g gk) s sk).
+  Proof.
+    induction 1 as [|g gk s sk Hs HF IH]; intros Hc Hn Hb Ho Hnd; [reflexivity|].
+    cbn [flat_map map2]. rewrite load_state_app. unfold own_entries at 1.
+    rewrite (load_group_own gk (Hc gk (or_introl eq_refl)) _ g s Hs).
+    2:{ intros pid Hp. apply filter_In in Hp as [Hp1 Hp2]. split; [exact Hp2|]. split; [apply (Hn gk); [left; reflexivity|exact Hp1]|apply Hb; left; reflexivity]. }
+    cbn [List.concat map] in Hnd.
+    rewrite load_state_skip.
+    - rewrite IH; [reflexivity| | | | |].
+      + intros; apply Hc; right; assumption.
+      + intros g' pid H1 H2; apply (Hn g'); [right; assumption|assumption].
+      + intros; apply Hb; right; assumption.
+      + intros g' pb H1 H2; apply (Ho g'); [right; assumption|assumption].
+      + apply NoDup_app_r in Hnd. exact Hnd.
+    - intros e pid He Hl. apply in_flat_map in He as (gk' & Hgk' & He). unfold own_entries in He.
+      apply in_map_iff in He as (pid' & <- & Hp'). apply filter_In in Hp' as [Hp' _]. cbn [fst] in Hl.
+      assert (Hnamed : In pid' (map snd k2p)) by (apply (Hn gk'); [right; exact Hgk'|exact Hp']).
+      destruct (named_lookup pid' Hnamed) as (_ & _ & Hl'). rewrite Hl' in Hl. injection Hl as <-.
+      rewrite (in_state_sim _ gk pid' (gsim_absorb _ g gk Hs)).
+      destruct (in_state gk pid') eqn:E; [|reflexivity]. exfalso.
+      apply (in_state_pids gk pid' (fun pb Hpb => Ho gk pb (or_introl eq_refl) Hpb)) in E.
+      apply (NoDup_app_disj _ _ Hnd pid' E). apply in_concat. exists (g_pids gk'). split; [|exact Hp'].
+      apply in_map_iff. exists gk'. auto.
+  Qed.
+
+  (* ---------------------------------------------------------------- saving *)
+  Lemma mapM_ok_map {A B} (f : A -> result B) (f' : A -> B) l : (forall a, In a l -> f a = Ok (f' a)) -> mapM f l = Ok (map f' l).
+  Proof.
+    induction l as [|a l IH]; intros H; [reflexivity|]. cbn [mapM map]. rewrite (H a (or_introl eq_refl)), IH; [reflexivity|].
+    intros a' Ha'. apply H. right. exact Ha'.
+  Qed.
+
+  Lemma mapM_raise {A B} (f : A -> result B) e l :
+    (forall a, In a l -> (exists b, f a = Ok b) \/ f a = Raise e) -> (exists a, In a l /\ f a = Raise e) -> mapM f l = Raise e.
+  Proof.
+    induction l as [|a l IH]; intros H (x & Hx & Ex); [destruct Hx|]. cbn [mapM].
+    destruct (H a (or_introl eq_refl)) as [(b & Eb)|Eb]; rewrite Eb; [|reflexivity].
+    rewrite IH; [reflexivity| |].
+    - intros a' Ha'. apply H. right. exact Ha'.
+    - destruct Hx as [<-|Hx]; [congruence|]. exists x. auto.
+  Qed.
+
+  Lemma map_flat_map {A B C} (f : B -> C) (g : A -> list B) l : map f (flat_map g l) = flat_map (fun x => map f (g x)) l.
+  Proof. induction l as [|a l IH]; [reflexivity|]. cbn [flat_map]. rewrite map_app, IH. reflexivity. Qed.
+
+  Lemma NoDup_filter_concat {A} (sel : A -> list nat) (P : A -> nat -> bool) l :
+    NoDup (List.concat (map sel l)) -> NoDup (flat_map (fun a => filter (P a) (sel a)) l).
+  Proof.
+    induction l as [|a l IH]; intros H; [constructor|]. cbn [map List.concat flat_map] in *.
+    apply NoDup_app_intro.
+    - apply NoDup_filter. apply NoDup_app_l in H. exact H.
+    - apply IH. apply NoDup_app_r in H. exact H.
+    - intros x Hx Hx'. apply filter_In in Hx as [Hx _]. apply (NoDup_app_disj _ _ H x Hx).
+      apply in_flat_map in Hx' as (a' & Ha' & Hx'). apply filter_In in Hx' as [Hx' _].
+      apply in_concat. exists (sel a'). split; [apply in_map; exact Ha'|exact Hx'].
+  Qed.
+
+  Lemma group_key_named inv (g : cgroup (F:=F)) :
+    (forall pid, In pid (g_pids g) -> dget Nat.eqb pid inv = Some (nm pid)) -> group_key inv g = Ok (gkey g).
+  Proof.
+    intros H. unfold group_key, gkey.
+    rewrite (mapM_ok_map _ nm); [reflexivity|]. intros pid Hp. rewrite (H pid Hp). reflexivity.
+  Qed.
+
+  Definition own_ckpt (sk : opt_stateF) : ckpt (F:=F) fkey :=
+    mkCk (flat_map own_entries sk) (map (fun g => (gkey g, g_opts g)) sk).
+
+  Lemma state_pids_named sk : wf_state sk ->
+    NoDup (map fst (flat_map own_entries sk)).
+  Proof.
+    intros W. rewrite map_flat_map. unfold own_entries.
+    assert (E : flat_map (fun x : cgroup (F:=F) => map fst (map (fun pid => (nm pid, sparam x pid)) (filter (in_state x) (g_pids x)))) sk
+                = map nm (flat_map (fun g : cgroup (F:=F) => filter (in_state g) (g_pids g)) sk)).
+    { rewrite map_flat_map. apply flat_map_ext. intros g. rewrite map_map. reflexivity. }
+    rewrite E. apply NoDup_map_inj; [|apply NoDup_filter_concat; apply (wf_pids sk W)].
+    intros x y Hx Hy. apply in_flat_map in Hx as (gx & Hgx & Hx), Hy as (gy & Hgy & Hy).
+    apply filter_In in Hx as [Hx _], Hy as [Hy _].
+    apply nm_inj; [apply (wf_named sk W gx); assumption|apply (wf_named sk W gy); assumption].
+  Qed.
+
+  Theorem save_own sk : wf_state sk -> sckpt sk = Ok (own_ckpt sk).
+  Proof.
+    intros W. unfold save_ckpt, state_pids.
+    rewrite (mapM_ok_map _ (fun pg => (nm (fst pg), sparam (snd pg) (fst pg)))).
+    2:{ intros [pid g] Hin. cbn [fst snd]. apply in_flat_map in Hin as (g' & Hg' & Hin). apply in_map_iff in Hin as (pid' & E & Hp).
+        injection E as -> ->. apply filter_In in Hp as [Hp _].
+        destruct (named_lookup pid (wf_named sk W g pid Hg' Hp)) as (-> & _). reflexivity. }
+    rewrite (mapM_ok_map _ (fun g => (gkey g, g_opts g))).
+    2:{ intros g Hg. rewrite group_key_named; [reflexivity|]. intros pid Hp. apply named_lookup. apply (wf_named sk W g); assumption. }
+    unfold own_ckpt. f_equal. f_equal.
+    - rewrite map_flat_map.
+      assert (E : flat_map (fun x : cgroup (F:=F) => map (fun pg : nat * cgroup (F:=F) => (nm (fst pg), sparam (snd pg) (fst pg)))
+                                (map (fun pid => (pid, x)) (filter (in_state x) (g_pids x)))) sk = flat_map own_entries sk).
+      { apply flat_map_ext. intros g. rewrite map_map. reflexivity. }
+      rewrite E. apply (pydict_id String.eqb String.eqb_eq). apply state_pids_named. exact W.
+    - apply (pydict_id String.eqb String.eqb_eq). rewrite map_map. cbn [fst]. apply (wf_gkeys sk W).
+  Qed.
+
+  (* ---------------------------------------------------------------- loading one's own checkpoint *)
+  Lemma map2_ext_F2 {A B C} (R : A -> B -> Prop) (f g : A -> B -> C) l1 l2 :
+    Forall2 R l1 l2 -> (forall a b, R a b -> In b l2 -> f a b = g a b) -> map2 f l1 l2 = map2 g l1 l2.
+  Proof.
+    induction 1 as [|a b l1 l2 Hab _ IH]; intros H; [reflexivity|]. cbn [map2].
+    rewrite (H a b Hab (or_introl eq_refl)), IH; [reflexivity|]. intros a' b' Hr Hin. apply H; [exact Hr|right; exact Hin].
+  Qed.
+
+  Definition final (g gk : cgroup (F:=F)) : cgroup (F:=F) := set_opts (graft g gk) (g_opts gk).
+
+  Lemma load_groups_own s sk pgs : Forall2 gsim s sk -> List.length pgs = List.length sk ->
+    (forall gk, In gk sk -> (forall pid, In pid (g_pids gk) -> In pid (map snd k2p)) /\ dget String.eqb (gkey gk) pgs = Some (g_opts gk)) ->
+    lgroups (map2 graft s sk) pgs = Ok (map2 final s sk).
+  Proof.
+    intros HF Hlen H. unfold load_groups.
+    assert (El : List.length (map2 graft s sk) = List.length pgs).
+    { rewrite Hlen. clear -HF. induction HF; cbn [map2 List.length]; auto. }
+    rewrite El, Nat.eqb_refl. cbn [negb].
+    clear El Hlen. induction HF as [|g gk s sk Hs _ IH]; [reflexivity|]. cbn [map2 mapM].
+    destruct (H gk (or_introl eq_refl)) as (Hn & Hd).
+    assert (Ek : group_key (inv_map k2p) (graft g gk) = Ok (gkey gk)).
+    { destruct Hs as (_ & _ & _ & Hp & _). rewrite (group_key_named (inv_map k2p) (graft g gk)).
+      - unfold gkey, graft. cbn [g_pids]. rewrite Hp. reflexivity.
+      - unfold graft. cbn [g_pids]. rewrite Hp. intros pid Hpid. apply named_lookup. apply Hn. exact Hpid. }
+    rewrite Ek, Hd. rewrite IH; [reflexivity|]. intros gk' Hgk'. apply H. right. exact Hgk'.
+  Qed.
+
+  Lemma forget_final s sk : Forall2 gsim s sk -> map forget (map2 final s sk) = map forget sk.
+  Proof.
+    induction 1 as [|g gk s sk (H1 & H2 & H3 & H4 & _) _ IH]; [reflexivity|]. cbn [map2 map]. rewrite IH. f_equal.
+    unfold forget, final, set_opts, graft. cbn [g_ctor g_opts g_hasmom g_hasfilt g_pids g_blocks g_step g_vol].
+    rewrite H1, H2, H3, H4. destruct gk; reflexivity.
+  Qed.
+
+  (* an optimizer of the same construction over the same parameter values loads the checkpoint of sk - every block
+     layout, blocks without any Kronecker factor included - and then holds exactly sk's saved state *)
+  Theorem load_own s sk : Forall2 gsim s sk -> wf_state sk ->
+    lckpt s (own_ckpt sk) = Ok (map2 final s sk).
+  Proof.
+    intros HF W. unfold load_ckpt, own_ckpt. cbn [ck_state ck_groups].
+    rewrite (load_state_own s sk HF (wf_conf sk W) (wf_named sk W) (wf_bnames sk W) (wf_owner sk W) (wf_pids sk W)).
+    rewrite (map2_ext_F2 gsim _ graft s sk HF).
+    2:{ intros g gk Hs Hin. apply absorb_all; [exact Hs|apply (wf_nonempty sk W gk Hin)|exact (fun pb => wf_owner sk W gk pb Hin)]. }
+    apply load_groups_own; [exact HF|apply map_length|].
+    intros gk Hgk. split; [exact (fun pid => wf_named sk W gk pid Hgk)|].
+    apply (dget_in String.eqb String.eqb_eq); [rewrite map_map; cbn [fst]; apply (wf_gkeys sk W)|].
+    apply in_map_iff. exists gk. auto.
+  Qed.
+
+  (* ---------------------------------------------------------------- loading never changes the structure *)
+  Definition bsim0 (b bk : pblockF) : Prop :=
+    pb_owner b = pb_owner bk /\ pb_name b = pb_name bk /\ b_dims (pb_blk b) = b_dims (pb_blk bk).
+  Definition gsim0 (g gk : cgroupF) : Prop :=
+    g_ctor g = g_ctor gk /\ g_hasmom g = g_hasmom gk /\ g_hasfilt g = g_hasfilt gk /\ g_pids g = g_pids gk
+    /\ Forall2 bsim0 (g_blocks g) (g_blocks gk).
+
+  Lemma gsim_gsim0 g gk : gsim g gk -> gsim0 g gk.
+  Proof.
+    intros (H1 & H2 & H3 & H4 & HF). repeat (split; [assumption|]).
+    induction HF as [|b bk bs bsk (A & B & C & _) _ IH]; constructor; [repeat split; assumption|exact IH].
+  Qed.
+
+  Lemma F2_bsim0_refl bs : Forall2 bsim0 bs bs.
+  Proof. induction bs; constructor; [repeat split|assumption]. Qed.
+  Lemma gsim0_refl g : gsim0 g g.
+  Proof. repeat (split; [reflexivity|]). apply F2_bsim0_refl. Qed.
+
+  Lemma F2_bsim0_trans a b c : Forall2 bsim0 a b -> Forall2 bsim0 b c -> Forall2 bsim0 a c.
+  Proof.
+    intros H. revert c. induction H as [|x y l l' (A & B & C) _ IH]; intros c Hc; inversion Hc as [|? z ? l'' (A' & B' & C') Hr]; subst; constructor.
+    - repeat split; congruence.
+    - apply IH. exact Hr.
+  Qed.
+  Lemma gsim0_trans a b c : gsim0 a b -> gsim0 b c -> gsim0 a c.
+  Proof.
+    intros (A1 & A2 & A3 & A4 & A5) (B1 & B2 & B3 & B4 & B5). repeat (split; [congruence|]). eapply F2_bsim0_trans; eassumption.
+  Qed.
+  Lemma gsim0_sym a b : gsim0 a b -> gsim0 b a.
+  Proof.
+    intros (A1 & A2 & A3 & A4 & A5). repeat (split; [congruence|]).
+    induction A5 as [|x y l l' (A & B & C) _ IH]; constructor; [repeat split; congruence|exact IH].
+  Qed.
+
+  Lemma owns_sim0 pid b bk : bsim0 b bk -> owns pid b = owns pid bk.
+  Proof. intros (H & _). unfold owns. rewrite H. reflexivity. Qed.
+  Lemma blay_sim0 g gk b bk : gsim0 g gk -> bsim0 b bk -> blay_of g b = blay_of gk bk.
+  Proof. intros (H1 & H2 & H3 & _) (_ & _ & Hd). unfold blay_of, lay_of. rewrite H1, H2, H3, Hd. reflexivity. Qed.
+
+  Lemma playout_sim0 g gk pid : gsim0 g gk -> playout g pid = playout gk pid.
+  Proof.
+    intros Hs. pose proof Hs as (_ & _ & _ & _ & HF). unfold playout.
+    induction HF as [|b bk bs bsk Hb _ IH]; [reflexivity|]. cbn [filter]. rewrite (owns_sim0 pid b bk Hb).
+    destruct (owns pid bk); cbn [map]; rewrite IH; [|reflexivity]. rewrite (blay_sim0 g gk b bk Hs Hb). destruct Hb as (_ & -> & _). reflexivity.
+  Qed.
+  Lemma is_head_sim0 g gk pid : gsim0 g gk -> is_head g pid = is_head gk pid.
+  Proof. intros (_ & _ & _ & H & _). unfold is_head. rewrite H. reflexivity. Qed.
+  Lemma in_state_sim0 g gk pid : gsim0 g gk -> in_state g pid = in_state gk pid.
+  Proof.
+    intros Hs. unfold in_state. rewrite (is_head_sim0 g gk pid Hs). f_equal.
+    destruct Hs as (_ & _ & _ & _ & HF). induction HF as [|b bk bs bsk Hb _ IH]; [reflexivity|].
+    cbn [existsb]. rewrite (owns_sim0 pid b bk Hb), IH. reflexivity.
+  Qed.
+  Lemma pobj_sim0 g gk pid b : gsim0 g gk -> pobj g pid b = pobj gk pid b.
+  Proof. intros Hs. unfold pobj. rewrite (playout_sim0 g gk pid Hs), (is_head_sim0 g gk pid Hs). reflexivity. Qed.
+  Lemma gkey_sim0 g gk : gsim0 g gk -> gkey g = gkey gk.
+  Proof. intros (_ & _ & _ & H & _). unfold gkey. rewrite H. reflexivity. Qed.
+
+  Lemma put_blocks_sim0 g pid bs : forall vals, Forall2 bsim0 bs (fst (put_blocks g pid bs vals)).
+  Proof.
+    induction bs as [|pb bs IH]; intros vals; [constructor|]. cbn [put_blocks].
+    destruct (owns pid pb).
+    - specialize (IH (skipn (bcount (blay_of g pb)) vals)). destruct (put_blocks g pid bs _) as [r' rest]. cbn [fst] in *.
+      constructor; [repeat split|exact IH].
+    - specialize (IH vals). destruct (put_blocks g pid bs vals) as [r' rest]. cbn [fst] in *. constructor; [repeat split|exact IH].
+  Qed.
+
+  Lemma set_pvals_sim0 g pid vals : gsim0 g (set_pvals g pid vals).
+  Proof.
+    unfold set_pvals. pose proof (put_blocks_sim0 g pid (g_blocks g) vals) as H.
+    destruct (put_blocks g pid (g_blocks g) vals) as [bs' rest]. cbn [fst] in H.
+    repeat (split; [reflexivity|]). exact H.
+  Qed.
+
+  Lemma with_group_sim0 pid (f : cgroupF -> result cgroupF) : (forall g g', f g = Ok g' -> gsim0 g g') ->
+    forall s s', with_group pid f s = Ok s' -> Forall2 gsim0 s s'.
+  Proof.
+    intros Hf. induction s as [|g r IH]; intros s' H; [discriminate|]. cbn [with_group] in H.
+    destruct (in_state g pid).
+    - destruct (f g) as [g'|] eqn:E; [|discriminate]. injection H as <-. constructor; [apply Hf; exact E|].
+      clear. induction r; constructor; [apply gsim0_refl|assumption].
+    - destruct (with_group pid f r) as [r'|] eqn:E; [|discriminate]. injection H as <-. constructor; [apply gsim0_refl|apply IH; reflexivity].
+  Qed.
+
+  Lemma F2_gsim0_refl (s : opt_stateF) : Forall2 gsim0 s s.
+  Proof. induction s; constructor; [apply gsim0_refl|assumption]. Qed.
+  Lemma F2_gsim0_trans (a b c : opt_stateF) : Forall2 gsim0 a b -> Forall2 gsim0 b c -> Forall2 gsim0 a c.
+  Proof.
+    intros H. revert c. induction H as [|x y l l' Hxy _ IH]; intros c Hc; inversion Hc; subst; constructor.
+    - eapply gsim0_trans; eassumption.
+    - apply IH. assumption.
+  Qed.
+
+  Lemma load_entry_sim0 s e s' : lentry s e = Ok s' -> Forall2 gsim0 s s'.
+  Proof.
+    unfold load_entry. destruct (dget String.eqb (fst e) (k2p_map k2p)) as [pid|]; [|discriminate].
+    apply with_group_sim0. intros g g' H. destruct (load_param _ _ _ _ _ _ _) as [vals'|]; [|discriminate].
+    injection H as <-. apply set_pvals_sim0.
+  Qed.
+
+  Lemma load_state_sim0 es : forall s s', lstate s es = Ok s' -> Forall2 gsim0 s s'.
+  Proof.
+    induction es as [|e es IH]; intros s s' H; cbn [load_state] in H.
+    - injection H as <-. apply F2_gsim0_refl.
+    - destruct (lentry s e) as [s1|] eqn:E; [|discriminate]. eapply F2_gsim0_trans; [eapply load_entry_sim0; exact E|apply IH; exact H].
+  Qed.
+
+  Lemma F2_in_r {A B} (R : A -> B -> Prop) l l' b : Forall2 R l l' -> In b l' -> exists a, In a l /\ R a b.
+  Proof.
+    induction 1 as [|x y l l' Hxy _ IH]; intros Hin; [destruct Hin|]. destruct Hin as [<-|Hin].
+    - exists x. split; [left; reflexivity|exact Hxy].
+    - destruct (IH Hin) as (a & Ha & Hr). exists a. split; [right; exact Ha|exact Hr].
+  Qed.
+  Lemma F2_length {A B} (R : A -> B -> Prop) l l' : Forall2 R l l' -> List.length l = List.length l'.
+  Proof. induction 1; cbn [List.length]; auto. Qed.
+
+  (* ---------------------------------------------------------------- rejection *)
+  Lemma with_group_all_raise pid (f : cgroupF -> result cgroupF) s :
+    (forall g, In g s -> in_state g pid = true -> f g = Raise KeyError) -> with_group pid f s = Raise KeyError.
+  Proof.
+    induction s as [|g r IH]; intros H; [reflexivity|]. cbn [with_group]. destruct (in_state g pid) eqn:E.
+    - rewrite (H g (or_introl eq_refl) E). reflexivity.
+    - rewrite IH; [reflexivity|]. intros g' Hg'. apply H. right. exact Hg'.
+  Qed.
+
+  (* a saved parameter whose state lacks ANY flat key the optimizer holds for it (a top-level block entry, an entry
+     inside a Kronecker-factor module, the step): KeyError *)
+  Theorem load_rejects_missing_entry (s : opt_stateF) (ck : ckpt (F:=F) fkey) pre name fl post pid s1 :
+    ck_state ck = pre ++ (name, fl) :: post -> lstate s pre = Ok s1 ->
+    dget String.eqb name (k2p_map k2p) = Some pid ->
+    (forall g, In g s -> in_state g pid = true -> exists k, In k (keysof (pobj g pid 0)) /\ ~ In k (map fst fl)) ->
+    lckpt s ck = Raise KeyError.
+  Proof.
+    intros Hck Hpre Hname Hmiss. unfold load_ckpt. rewrite Hck, load_state_app, Hpre. cbn [load_state].
+    unfold load_entry at 1. cbn [fst snd]. rewrite Hname.
+    rewrite with_group_all_raise; [reflexivity|].
+    intros g1 Hg1 Hin1. destruct (F2_in_r _ _ _ g1 (load_state_sim0 _ _ _ Hpre) Hg1) as (g & Hg & Hs).
+    rewrite <- (pobj_sim0 g g1 pid 0 Hs). rewrite <- (in_state_sim0 g g1 pid Hs) in Hin1.
+    destruct (Hmiss g Hg Hin1) as (k & Hk & Hnk). unfold load_param. rewrite (missing_some _ _ k Hk Hnk). reflexivity.
+  Qed.
+
+  (* a saved parameter key that key_to_param does not know: KeyError *)
+  Theorem load_rejects_unknown_param (s : opt_stateF) (ck : ckpt (F:=F) fkey) pre name fl post s1 :
+    ck_state ck = pre ++ (name, fl) :: post -> lstate s pre = Ok s1 ->
+    dget String.eqb name (k2p_map k2p) = None -> lckpt s ck = Raise KeyError.
+  Proof.
+    intros Hck Hpre Hname. unfold load_ckpt. rewrite Hck, load_state_app, Hpre. cbn [load_state].
+    unfold load_entry at 1. cbn [fst]. rewrite Hname. reflexivity.
+  Qed.
+
+  (* a named parameter that the optimizer holds no state for: KeyError *)
+  Theorem load_rejects_stateless_param (s : opt_stateF) (ck : ckpt (F:=F) fkey) pre name fl post pid s1 :
+    ck_state ck = pre ++ (name, fl) :: post -> lstate s pre = Ok s1 ->
+    dget String.eqb name (k2p_map k2p) = Some pid -> (forall g, In g s -> in_state g pid = false) ->
+    lckpt s ck = Raise KeyError.
+  Proof.
+    intros Hck Hpre Hname Hno. unfold load_ckpt. rewrite Hck, load_state_app, Hpre. cbn [load_state].
+    unfold load_entry at 1. cbn [fst snd]. rewrite Hname.
+    rewrite with_group_all_raise; [reflexivity|].
+    intros g1 Hg1 Hin1. destruct (F2_in_r _ _ _ g1 (load_state_sim0 _ _ _ Hpre) Hg1) as (g & Hg & Hs).
+    rewrite <- (in_state_sim0 g g1 pid Hs), (Hno g Hg) in Hin1. discriminate.
+  Qed.
+
+  (* param_groups: another number of groups, or a group of the optimizer whose key is absent: ValueError *)
+  Theorem load_rejects_group_mismatch (s : opt_stateF) (ck : ckpt (F:=F) fkey) s1 :
+    lstate s (ck_state ck) = Ok s1 ->
+    (List.length s <> List.length (ck_groups ck) -> lckpt s ck = Raise ValueError)
+    /\ ((forall g pid, In g s -> In pid (g_pids g) -> In pid (map snd k2p)) ->
+        (exists g, In g s /\ dget String.eqb (gkey g) (ck_groups ck) = None) -> lckpt s ck = Raise ValueError).
+  Proof.
+    intros Hst. pose proof (load_state_sim0 _ _ _ Hst) as HF. pose proof (F2_length _ _ _ HF) as Hl.
+    unfold load_ckpt. rewrite Hst. unfold load_groups. split.
+    - intros Hne. rewrite <- Hl. destruct (Nat.eqb (List.length s) (List.length (ck_groups ck))) eqn:E; [apply Nat.eqb_eq in E; contradiction|reflexivity].
+    - intros Hnamed (g & Hg & Hnone).
+      destruct (negb (Nat.eqb (List.length s1) (List.length (ck_groups ck)))); [reflexivity|].
+      assert (Hk : forall g1, In g1 s1 -> exists g0, In g0 s /\ group_key (inv_map k2p) g1 = Ok (gkey g0)).
+      { intros g1 Hg1. destruct (F2_in_r _ _ _ g1 HF Hg1) as (g0 & Hg0 & Hs). exists g0. split; [exact Hg0|].
+        rewrite (gkey_sim0 g0 g1 Hs). apply group_key_named. intros pid Hp. apply named_lookup.
+        apply (Hnamed g0); [exact Hg0|]. destruct Hs as (_ & _ & _ & -> & _). exact Hp. }
+      apply mapM_raise.
+      + intros g1 Hg1. destruct (Hk g1 Hg1) as (g0 & _ & ->). destruct (dget String.eqb (gkey g0) (ck_groups ck)); [left; eauto|right; reflexivity].
+      + assert (exists g1, In g1 s1 /\ gsim0 g g1) as (g1 & Hg1 & Hs).
+        { clear - HF Hg. induction HF as [|x y l l' Hxy _ IH]; [destruct Hg|]. destruct Hg as [<-|Hg].
+          - exists y. split; [left; reflexivity|exact Hxy].
+          - destruct (IH Hg) as (g1 & H1 & H2). exists g1. split; [right; exact H1|exact H2]. }
+        exists g1. split; [exact Hg1|].
+        rewrite (group_key_named (inv_map k2p) g1).
+        * rewrite <- (gkey_sim0 g g1 Hs), Hnone. reflexivity.
+        * intros pid Hp. apply named_lookup. apply (Hnamed g); [exact Hg|]. destruct Hs as (_ & _ & _ & -> & _). exact Hp.
+  Qed.
+
+  (* ---------------------------------------------------------------- uniqueness of the saved keys *)
+  Lemma dumps_inj' p q : dumps p = dumps q -> p = q.
+  Proof. intros H. pose proof (loads_dumps p) as Hp. rewrite H, loads_dumps in Hp. injection Hp as ->. reflexivity. Qed.
+
+  Lemma keys_nodup Ls head b : NoDup (map fst Ls) -> NoDup (keysof (pobj_at Ls head b)).
+  Proof.
+    intros Hn. set (po := pobj_at Ls head b).
+    pose proof (pstate_pobj Ls head b) as Hp. pose proof (wf_pobj Ls head b Hn) as Hw. fold po in Hp, Hw.
+    assert (Hsd : sd false (ODict po) = Some (Node (extract po))) by (rewrite <- (extract_eq_sd _ Hp); reflexivity).
+    pose proof (wf_sd false _ Hw _ Hsd) as Hwft.
+    destruct (flatten_injective fkey fkey_eqb dumps loads fkey_eqb_eq loads_dumps (extract po) Hwft) as (_ & _ & _ & E). exact E.
+  Qed.
+
+  Lemma NoDup_prefix {A} (a t : list A) : NoDup (a ++ t) -> NoDup a.
+  Proof. apply NoDup_app_l. Qed.
+
+  (* within one parameter: the flat keys are json.dumps of [block name :: tensor path] / ["step"]; no two collide,
+     whatever the block layout and for both naming schemes; across parameters and groups: names are unique *)
+  Theorem saved_keys_unique sk : wf_state sk ->
+    NoDup (map fst (ck_state (own_ckpt sk)))
+    /\ (forall name fl, In (name, fl) (ck_state (own_ckpt sk)) -> NoDup (map fst fl))
+    /\ NoDup (map fst (ck_groups (own_ckpt sk)))
+    /\ (forall g pid b, In g sk -> keysof (pobj g pid b) = map dumps (ppaths (playout g pid) (is_head g pid))).
+  Proof.
+    intros W. unfold own_ckpt. cbn [ck_state ck_groups]. split; [apply state_pids_named; exact W|]. split; [|split].
+    - intros name fl Hin. apply in_flat_map in Hin as (g & Hg & Hin). unfold own_entries in Hin.
+      apply in_map_iff in Hin as (pid & E & _). injection E as _ <-. unfold save_param.
+      destruct (combine_fst_prefix (keysof (pobj g pid 0)) (pvals g pid)) as (t & Et).
+      apply (NoDup_prefix _ t). rewrite <- Et. apply keys_nodup. apply (wf_bnames sk W g pid Hg).
+    - rewrite map_map. cbn [fst]. apply (wf_gkeys sk W).
+    - intros g pid b Hg. apply keys_pobj. apply (wf_bnames sk W g pid Hg).
+  Qed.
+
+  Theorem flat_keys_distinct (n1 n2 : bname) (q1 q2 : list key) :
+    (n1, q1) <> (n2, q2) ->
+    dumps (KStr (bname_str n1) :: q1) <> dumps (KStr (bname_str n2) :: q2)
+    /\ dumps (KStr (bname_str n1) :: q1) <> dumps [KStr "step"].
+  Proof.
+    intros Hne. split; intros E; apply dumps_inj' in E.
+    - injection E as E1 E2. apply bname_str_inj in E1. subst. contradiction.
+    - injection E as E1 _. exact (bname_str_not_step _ E1).
+  Qed.
+
+  (* ========================================================================================== *)
+  (* E. the step reads only what is saved; resuming = not interrupting                            *)
+  Variable Op : ops F.
+
+  Lemma map2_length {A B C} (f : A -> B -> C) l1 : forall l2, List.length (map2 f l1 l2) = Nat.min (List.length l1) (List.length l2).
+  Proof. induction l1 as [|a l1 IH]; intros [|b l2]; cbn [map2 List.length Nat.min]; auto. Qed.
+
+  Lemma pad_ins_length n ins : List.length (pad_ins (F:=F) n ins) = n.
+  Proof. unfold pad_ins. rewrite firstn_length, app_length, repeat_length. lia. Qed.
+
+  (* ---- the model's step, by construction, is a function of the saved part of the state ---- *)
+  Theorem gstep_reads_only_saved e g1 g2 : forget g1 = forget g2 ->
+    forget (gstep Op e g1) = forget (gstep Op e g2) /\ gqueries Op e g1 = gqueries Op e g2.
+  Proof.
+    destruct g1 as [c1 o1 m1 f1 p1 b1 t1 v1], g2 as [c2 o2 m2 f2 p2 b2 t2 v2]. unfold forget. cbn [g_ctor g_opts g_hasmom g_hasfilt g_pids g_blocks g_step].
+    intros H. injection H as -> -> -> -> -> -> ->. split.
+    - unfold gstep. cbn [g_ctor g_opts g_hasmom g_hasfilt g_pids g_blocks g_step g_vol].
+      destruct (group_step Op _ _ _ _ _) as [[t' bs'] qs]. reflexivity.
+    - reflexivity.
+  Qed.
+
+  Lemma ostep_forget : forall s1 s2 es, map forget s1 = map forget s2 -> map forget (ostep Op s1 es) = map forget (ostep Op s2 es).
+  Proof.
+    induction s1 as [|g1 s1 IH]; intros [|g2 s2] es H; try discriminate; [reflexivity|].
+    cbn [map] in H. pose proof (f_equal (hd (forget g1)) H) as Hg. pose proof (f_equal (@tl _) H) as Hs. cbn [hd tl] in Hg, Hs. clear H.
+    destruct es as [|e es]; cbn [ostep map].
+    - rewrite Hg, Hs. reflexivity.
+    - rewrite (proj1 (gstep_reads_only_saved e g1 g2 Hg)), (IH s2 es Hs). reflexivity.
+  Qed.
+
+  Lemma run_forget h : forall s1 s2, map forget s1 = map forget s2 -> map forget (run Op h s1) = map forget (run Op h s2).
+  Proof.
+    induction h as [|es h IH]; intros s1 s2 H; [exact H|]. cbn [run fold_left]. apply IH. apply ostep_forget. exact H.
+  Qed.
+
+  (* ---- invariants of the step ---- *)
+  Lemma filter_grad_nil c t h g : snd (filter_grad Op c t h [] g) = [].
+  Proof. unfold filter_grad. destruct (nz Op (c_beta1 c)); reflexivity. Qed.
+  Lemma momentum_step_nil c P : snd (momentum_step Op c [] P) = [].
+  Proof. unfold momentum_step. destruct (nz Op (c_mom c)); [|reflexivity]. destruct (c_nesterov c); reflexivity. Qed.
+  Lemma graft_update_nil c g : is_ada c = false -> graft_update Op c [] g = [].
+  Proof. unfold is_ada, graft_update. destruct (c_graft c); [reflexivity|reflexivity|discriminate]. Qed.
+
+  Lemma block_step_conf c t h dims answers w st g L :
+    l_nf L = nfac c dims -> l_soap L = is_soap c -> l_graft L = is_ada c -> conf L st ->
+    conf L (snd (fst (block_step Op c t h dims answers w st g))).
+  Proof.
+    intros Hnf Hso Hgr (C1 & C2 & C3 & C4 & C5 & C6 & C7). unfold block_step.
+    set (gg := l2_grad Op c w g).
+    set (fs := update_factors Op c dims gg (s_factors st)).
+    assert (Hfs : List.length fs = l_nf L).
+    { unfold fs, update_factors. rewrite map2_length. unfold nfac in Hnf. rewrite <- Hnf. unfold mat, vec in *. rewrite C1. apply Nat.min_id. }
+    set (bc2 := bias_corr2 Op (c_biascorr c) (c_beta2 c) t (h_bc2 h)).
+    assert (HR : forall invs dg qs,
+               (if perform_amortized c t then refresh Op c (List.length dims) bc2 fs (s_inv st) (s_isdiag st) answers
+                else (s_inv st, s_isdiag st, [])) = (invs, dg, qs) -> List.length invs = l_nf L /\ List.length dg = l_nf L).
+    { intros invs dg qs E. destruct (perform_amortized c t).
+      - pose proof (refresh_lengths Op c (List.length dims) bc2 fs (s_inv st) (s_isdiag st) answers) as HL.
+        unfold mat, vec in *. rewrite E in HL. destruct HL as (L1 & L2 & _); [congruence|congruence|]. split; congruence.
+      - injection E as <- <- _. split; assumption. }
+    destruct (if perform_amortized c t then _ else _) as [[invs dg] qs] eqn:E.
+    destruct (HR invs dg qs eq_refl) as (Hi & Hd).
+    destruct (filter_grad Op c t h (s_filt st) gg) as [ghat filt] eqn:EF.
+    destruct (momentum_step Op c (s_mom st) _) as [P M'] eqn:EM.
+    cbn [fst snd]. unfold conf. cbn [s_factors s_inv s_isdiag s_coreig s_graft s_mom s_filt].
+    repeat split; try assumption.
+    - intros Hs. pose proof Hs as Hs'. rewrite Hso in Hs'. unfold is_soap in Hs'. destruct (c_kind c); [apply C4; exact Hs|discriminate].
+    - intros Hg. rewrite (C5 Hg). apply graft_update_nil. rewrite <- Hgr. exact Hg.
+    - intros Hm. rewrite (C6 Hm) in EM.
+      match type of EM with momentum_step Op c [] ?X = _ => pose proof (momentum_step_nil c X) as HN2; rewrite EM in HN2; exact HN2 end.
+    - intros Hf. rewrite (C7 Hf) in EF. pose proof (filter_grad_nil c t h gg) as HN. rewrite EF in HN. exact HN.
+  Qed.
+
+  Definition Qc (c : cfg (F:=F)) (b b' : block (F:=F)) : Prop :=
+    b_dims b' = b_dims b
+    /\ forall L, l_nf L = nfac c (b_dims b) -> l_soap L = is_soap c -> l_graft L = is_ada c -> conf L (b_st b) -> conf L (b_st b').
+
+  Lemma Qc_refl c bs : Forall2 (Qc c) bs bs.
+  Proof. induction bs; constructor; [split; auto|assumption]. Qed.
+
+  Lemma group_step_rel c h t bs ins : List.length ins = List.length bs ->
+    Forall2 (Qc c) bs (snd (fst (group_step Op c h t bs ins))).
+  Proof.
+    intros Hl. destruct (existsb (OptimizerProofs.has_grad) ins) eqn:E.
+    - rewrite (group_step_blockwise Op c h t bs ins E). clear E.
+      revert ins Hl. induction bs as [|b bs IH]; intros [|i ins] Hl; try discriminate; cbn [map2]; constructor.
+      + unfold block_result. destruct (i_grad i) as [g|]; [|split; auto].
+        destruct (block_step Op c (t + 1) h (b_dims b) (i_answers i) (b_w b) (b_st b) g) as [[w' st'] qs] eqn:EB.
+        split; [reflexivity|]. cbn [b_dims b_st]. intros L H1 H2 H3 H4.
+        pose proof (block_step_conf c (t + 1)%Z h (b_dims b) (i_answers i) (b_w b) (b_st b) g L H1 H2 H3 H4) as HC.
+        rewrite EB in HC. exact HC.
+      + apply IH. cbn in Hl. lia.
+    - rewrite (all_absent_no_step Op c h t bs ins E). cbn [fst snd]. apply Qc_refl.
+  Qed.
+
+  Lemma set_blk_sim0 c bl : forall bs', Forall2 (Qc c) (map (@pb_blk F) bl) bs' -> Forall2 bsim0 bl (map2 (@set_blk F) bl bs').
+  Proof.
+    induction bl as [|pb bl IH]; intros bs' H; inversion H as [|? b' ? r (Hd & _) Hr]; subst; cbn [map2]; constructor.
+    - unfold bsim0, set_blk. cbn [pb_owner pb_name pb_blk]. rewrite Hd. repeat split; reflexivity.
+    - apply IH. exact Hr.
+  Qed.
+
+  Theorem gstep_sim0 e g : gsim0 g (gstep Op e g).
+  Proof.
+    unfold gstep.
+    pose proof (group_step_rel (eff_cfg (set_opts g match gi_edit e with Some c => c | None => g_opts g end)) (gi_hints e) (g_step g)
+                  (map (@pb_blk F) (g_blocks g)) (pad_ins (List.length (g_blocks g)) (gi_ins e))) as HQ.
+    rewrite pad_ins_length, map_length in HQ. specialize (HQ eq_refl).
+    destruct (group_step Op _ _ _ _ _) as [[t' bs'] qs]. cbn [fst snd] in HQ.
+    unfold gsim0. cbn [g_ctor g_hasmom g_hasfilt g_pids g_blocks]. repeat (split; [reflexivity|]).
+    eapply set_blk_sim0. exact HQ.
+  Qed.
+
+  Theorem gstep_conf e g : gconf g -> gconf (gstep Op e g).
+  Proof.
+    intros Hc. unfold gstep.
+    pose proof (group_step_rel (eff_cfg (set_opts g match gi_edit e with Some c => c | None => g_opts g end)) (gi_hints e) (g_step g)
+                  (map (@pb_blk F) (g_blocks g)) (pad_ins (List.length (g_blocks g)) (gi_ins e))) as HQ.
+    rewrite pad_ins_length, map_length in HQ. specialize (HQ eq_refl).
+    destruct (group_step Op _ _ _ _ _) as [[t' bs'] qs]. cbn [fst snd] in HQ.
+    unfold gconf in *. cbn [g_blocks].
+    revert bs' HQ. induction Hc as [|pb bl Hpb _ IH]; intros bs' HQ; inversion HQ as [|? b' ? r (Hd & Hcf) Hr]; subst; cbn [map2]; constructor.
+    - unfold blay_of, lay_of, set_blk. cbn [g_ctor g_hasmom g_hasfilt pb_blk]. rewrite Hd. apply Hcf; try reflexivity. exact Hpb.
+    - apply IH. exact Hr.
+  Qed.
+
+  Lemma ostep_sim0 : forall s es, Forall2 gsim0 s (ostep Op s es).
+  Proof.
+    induction s as [|g s IH]; intros es; [destruct es; constructor|]. destruct es as [|e es]; cbn [ostep].
+    - apply F2_gsim0_refl.
+    - constructor; [apply gstep_sim0|apply IH].
+  Qed.
+  Lemma ostep_conf : forall s es, Forall gconf s -> Forall gconf (ostep Op s es).
+  Proof.
+    induction s as [|g s IH]; intros es H; [destruct es; constructor|]. destruct es as [|e es]; cbn [ostep]; [exact H|].
+    inversion H; subst. constructor; [apply gstep_conf; assumption|apply IH; assumption].
+  Qed.
+
+  Lemma F2_map_eq {A B C} (R : A -> B -> Prop) (f : A -> C) (g : B -> C) l l' :
+    Forall2 R l l' -> (forall a b, R a b -> f a = g b) -> map f l = map g l'.
+  Proof. induction 1 as [|a b l l' Hab _ IH]; intros H; [reflexivity|]. cbn [map]. rewrite (H a b Hab), IH; auto. Qed.
+
+  (* wf depends on the structure (what the constructor fixed) and on the shape of the block states only *)
+  Lemma wf_sim0 s s' : Forall2 gsim0 s s' -> wf_state s -> Forall gconf s' -> wf_state s'.
+  Proof.
+    intros HF W Hc.
+    assert (Hin : forall g', In g' s' -> exists g, In g s /\ gsim0 g g') by (intros g' Hg'; apply (F2_in_r _ _ _ g' HF Hg')).
+    constructor.
+    - intros g' pid Hg' Hp. destruct (Hin g' Hg') as (g & Hg & (_ & _ & _ & Hpid & _)). apply (wf_named s W g); [exact Hg|rewrite Hpid; exact Hp].
+    - rewrite <- (F2_map_eq gsim0 (@g_pids F) (@g_pids F) s s' HF); [apply (wf_pids s W)|]. intros a b (_ & _ & _ & H & _). exact H.
+    - intros g' Hg'. destruct (Hin g' Hg') as (g & Hg & (_ & _ & _ & Hpid & _)). rewrite <- Hpid. apply (wf_nonempty s W g Hg).
+    - intros g' pb' Hg' Hpb'. destruct (Hin g' Hg') as (g & Hg & (_ & _ & _ & Hpid & HB)).
+      destruct (F2_in_r _ _ _ pb' HB Hpb') as (pb & Hpb & (Ho & _)). rewrite <- Hpid, <- Ho. apply (wf_owner s W g pb Hg Hpb).
+    - intros g' pid Hg'. destruct (Hin g' Hg') as (g & Hg & Hs). rewrite <- (playout_sim0 g g' pid Hs). apply (wf_bnames s W g pid Hg).
+    - intros g' Hg'. apply (proj1 (Forall_forall _ _) Hc g' Hg').
+    - rewrite <- (F2_map_eq gsim0 gkey gkey s s' HF); [apply (wf_gkeys s W)|]. intros a b H. apply gkey_sim0. exact H.
+  Qed.
+
+  Lemma wf_forall_conf s : wf_state s -> Forall gconf s.
+  Proof. intros W. apply Forall_forall. apply (wf_conf s W). Qed.
+
+  Theorem run_wf h : forall s, wf_state s -> wf_state (run Op h s).
+  Proof.
+    induction h as [|es h IH]; intros s W; [exact W|]. cbn [run fold_left]. apply IH.
+    apply (wf_sim0 s); [apply ostep_sim0|exact W|apply ostep_conf; apply wf_forall_conf; exact W].
+  Qed.
+
+  (* ---- the fresh optimizer ---- *)
+  Lemma fresh_gsim g : gsim (fresh_group Op g) g.
+  Proof.
+    unfold gsim, fresh_group. cbn [g_ctor g_hasmom g_hasfilt g_pids g_blocks]. repeat (split; [reflexivity|]).
+    induction (g_blocks g) as [|pb bl IH]; cbn [map]; constructor; [repeat split|exact IH].
+  Qed.
+
+  Lemma zero_state_conf (L : blay) c dims : l_nf L = nfac c dims -> conf L (zero_state Op L c dims).
+  Proof.
+    intros H. unfold conf, zero_state. cbn [s_factors s_inv s_isdiag s_coreig s_graft s_mom s_filt].
+    rewrite !map_length. unfold nfac in H. repeat split; auto; intros ->; reflexivity.
+  Qed.
+
+  Lemma fresh_conf g : gconf (fresh_group Op g).
+  Proof.
+    unfold gconf, fresh_group. cbn [g_blocks]. apply Forall_forall. intros pb' Hin. apply in_map_iff in Hin as (pb & <- & _).
+    unfold blay_of, lay_of, set_st. cbn [g_ctor g_hasmom g_hasfilt pb_blk b_dims b_st]. apply zero_state_conf. reflexivity.
+  Qed.
+
+  Lemma fresh_F2 s : Forall2 gsim (fresh_over Op s) s.
+  Proof. induction s; cbn [fresh_over map]; constructor; [apply fresh_gsim|assumption]. Qed.
+
+  Lemma F2_gsim_sym0 (l l' : opt_stateF) : Forall2 gsim l l' -> Forall2 gsim0 l' l.
+  Proof. induction 1 as [|a b l l' Hab _ IH]; constructor; [apply gsim0_sym, gsim_gsim0; exact Hab|exact IH]. Qed.
+
+  Theorem fresh_wf s : wf_state s -> wf_state (fresh_over Op s).
+  Proof.
+    intros W. apply (wf_sim0 s); [|exact W|].
+    - apply F2_gsim_sym0. apply fresh_F2.
+    - apply Forall_forall. intros g' Hin. apply in_map_iff in Hin as (g & <- & _). apply fresh_conf.
+  Qed.
+
+  (* ---- the main theorems ---- *)
+  Theorem load_succeeds_on_own_save sk : wf_state sk ->
+    exists ck s', sckpt sk = Ok ck /\ lckpt (fresh_over Op sk) ck = Ok s' /\ map forget s' = map forget sk.
+  Proof.
+    intros W. exists (own_ckpt sk), (map2 final (fresh_over Op sk) sk). split; [apply save_own; exact W|]. split.
+    - apply load_own; [apply fresh_F2|exact W].
+    - apply forget_final. apply fresh_F2.
+  Qed.
+
+  Theorem resume_eq_uninterrupted s0 h k ck s' : wf_state s0 ->
+    sckpt (run Op (firstn k h) s0) = Ok ck ->
+    lckpt (fresh_over Op (run Op (firstn k h) s0)) ck = Ok s' ->
+    map forget (run Op (skipn k h) s') = map forget (run Op h s0).
+  Proof.
+    intros W Hs Hl. set (sk := run Op (firstn k h) s0) in *.
+    assert (Wk : wf_state sk) by (apply run_wf; exact W).
+    rewrite (save_own sk Wk) in Hs. injection Hs as <-.
+    rewrite (load_own _ sk (fresh_F2 sk) Wk) in Hl. injection Hl as <-.
+    rewrite <- (firstn_skipn k h) at 2. unfold run at 2. rewrite fold_left_app. fold (run Op (firstn k h) s0). fold sk. fold (run Op (skipn k h) sk).
+    apply run_forget. apply forget_final. apply fresh_F2.
+  Qed.
+End SaveLoad.
+
+(* ========================================================================================== *)
+(* Non-vacuity: a concrete optimizer (two groups; group 0 with every dim ignored - blocks WITHOUT any Kronecker factor,
+   the F4 layout -, one parameter split into two blocks, one block under the DDP naming scheme; group 1 SOAP) satisfies
+   every hypothesis, for the decoded-key codec of StateDict.v                                                          *)
+
+Definition ex_k2p : list (string * nat) := [("w.a", 0); ("w.b", 1); ("emb", 2)].
+Definition ex_s : opt_state (F:=Z) :=
+  [ skel_group (zcfg false true [0; 1]) true true [0; 1] [((0, BN 0), [3; 3]); ((0, BN 1), [3; 1]); ((1, RBN 2 0), [3])];
+    skel_group (zcfg true false []) false false [2] [((2, BN 0), [2; 2])] ].
+
+Lemma ex_names : NoDup (map fst ex_k2p) /\ NoDup (map snd ex_k2p).
+Proof. split; cbn [map fst snd ex_k2p]; repeat (constructor; [cbn [In]; intuition discriminate|]); constructor. Qed.
+
+Example ex_wf : wf_state ex_k2p ex_s.
+Proof.
+  constructor.
+  - intros g pid [<-|[<-|[]]] Hp; cbn in Hp |- *; intuition.
+  - cbn. repeat (constructor; [cbn [In]; intuition discriminate|]); constructor.
+  - intros g [<-|[<-|[]]]; cbn; discriminate.
+  - intros g pb [<-|[<-|[]]] Hpb; cbn in Hpb; repeat (destruct Hpb as [<-|Hpb]; [cbn; auto|]); destruct Hpb.
+  - intros g pid [<-|[<-|[]]]; destruct pid as [|[|[|p]]]; cbn; repeat (constructor; [cbn [In]; intuition discriminate|]); constructor.
+  - intros g [<-|[<-|[]]]; apply fresh_conf.
+  - vm_compute. repeat (constructor; [cbn [In]; intuition discriminate|]); constructor.
+Qed.
+
+(* a two-step history with an edit of the options (lr schedule) and an absent gradient *)
+Definition ex_hints : hints (F:=Z) := mkH 1%Z 1%Z 1%Z.
+Definition ex_h : list (list (ginput (F:=Z))) :=
+  [ [mkGI None ex_hints [mkI (Some [1;2;3;4;5;6;7;8;9]%Z) []; mkI (Some [1;2;3]%Z) []; mkI None []];
+     mkGI None ex_hints [mkI (Some [1;2;3;4]%Z) [[[1;0];[0;1]]%Z; [[1;0];[0;1]]%Z]]];
+    [mkGI (Some (zcfg false true [0; 1])) ex_hints [mkI None []; mkI None []; mkI (Some [1;1;1]%Z) []];
+     mkGI None ex_hints [mkI None []]] ].
+
+Example ex_resume :
+  exists ck s',
+    save_ckpt xkey xkey_eqb x_dumps ex_k2p (run zops (firstn 1 ex_h) ex_s) = Ok ck
+    /\ load_ckpt xkey xkey_eqb x_dumps x_loads ex_k2p (fresh_over zops (run zops (firstn 1 ex_h) ex_s)) ck = Ok s'
+    /\ map forget (run zops (skipn 1 ex_h) s') = map forget (run zops ex_h ex_s).
+Proof.
+  destruct ex_names as [N1 N2].
+  destruct (load_succeeds_on_own_save xkey xkey_eqb x_dumps x_loads xkey_eqb_eq x_loads_dumps ex_k2p N1 N2 zops
+              (run zops (firstn 1 ex_h) ex_s)) as (ck & s' & H1 & H2 & _).
+  - apply run_wf. exact ex_wf.
+  - exists ck, s'. split; [exact H1|]. split; [exact H2|].
+    apply (resume_eq_uninterrupted xkey xkey_eqb x_dumps x_loads xkey_eqb_eq x_loads_dumps ex_k2p N1 N2 zops ex_s ex_h 1 ck s' ex_wf H1 H2).
+Qed.
+
+(* the step counter of group 0 really advanced in that history, and is restored *)
+Example ex_step_restored :
+  match x_save ex_k2p (run zops (firstn 1 ex_h) ex_s) with
+  | Ok ck => match x_load ex_k2p (fresh_over zops (run zops (firstn 1 ex_h) ex_s)) ck with
+             | Ok s' => map (@g_step Z) s' = [1%Z; 1%Z]
+             | Raise _ => False
+             end
+  | Raise _ => False
+  end.
+Proof. vm_compute. reflexivity. Qed.
+
+(* rejection, on the same optimizer: delete one flat key of each kind / unknown parameter / param-group mismatch *)
+Definition ex_ck_keys : list (string * list xkey) :=
+  match x_save ex_k2p ex_s with Ok ck => map (fun e => (fst e, map fst (snd e))) (ck_state ck) | Raise _ => [] end.
+Definition ex_gkeys : list string := match x_save ex_k2p ex_s with Ok ck => map fst (ck_groups ck) | Raise _ => [] end.
+Definition del_key (name : string) (k : xkey) (st : list (string * list xkey)) : list (string * list xkey) :=
+  map (fun e => if String.eqb (fst e) name then (fst e, filter (fun k' => negb (xkey_eqb k k')) (snd e)) else e) st.
+
+Example ex_rejections :
+  agree_load ex_k2p ex_s ex_ck_keys ex_gkeys OOk = true
+  /\ agree_load ex_k2p ex_s (del_key "w.a" (Some [KStr "block_1"; KStr "momentum"]) ex_ck_keys) ex_gkeys (OErr KeyError) = true
+  /\ agree_load ex_k2p ex_s (del_key "w.a" (Some [KStr "step"]) ex_ck_keys) ex_gkeys (OErr KeyError) = true
+  /\ agree_load ex_k2p ex_s (del_key "emb" (Some [KStr "block_0"; KStr "shampoo"; KStr "factor_matrices_eigenvectors"; KInt 1]) ex_ck_keys) ex_gkeys (OErr KeyError) = true
+  /\ agree_load ex_k2p ex_s (ex_ck_keys ++ [("ghost", [])]) ex_gkeys (OErr KeyError) = true
+  /\ agree_load ex_k2p ex_s ex_ck_keys ["w.a/w.b"] (OErr ValueError) = true
+  /\ agree_load ex_k2p ex_s ex_ck_keys ["w.a/w.b"; "other"] (OErr ValueError) = true.
+Proof. vm_compute. repeat split. Qed.
+
+(* ========================================================================================== *)
+(* G. param-group keys: "/".join(sorted(names)) identifies the group as long as no parameter name contains '/'
+      (with '/' inside names two groups can collide - {"a","b/c"} and {"a/b","c"} -: the saved dict then has fewer
+      entries than the optimizer has groups and loading raises ValueError; outside the hypothesis [wf_gkeys])  *)
+
+Fixpoint allp (P : ascii -> bool) (s : string) : bool :=
+  match s with EmptyString => true | String c r => P c && allp P r end.
+
+Lemma split_at_sep (P : ascii -> bool) c : P c = false -> forall d1 d2 s1 s2,
+  allp P d1 = true -> allp P d2 = true ->
+  (d1 ++ String c s1)%string = (d2 ++ String c s2)%string -> d1 = d2 /\ s1 = s2.
+Proof.
+  intros Hc. induction d1 as [|a d1 IH]; intros [|b d2] s1 s2 H1 H2 E; cbn [append allp] in *.
+  - injection E as ->. auto.
+  - injection E as -> _. apply andb_true_iff in H2 as [H2 _]. congruence.
+  - injection E as -> _. apply andb_true_iff in H1 as [H1 _]. congruence.
+  - injection E as -> E. apply andb_true_iff in H1 as [_ H1]. apply andb_true_iff in H2 as [_ H2].
+    destruct (IH d2 s1 s2 H1 H2 E) as [-> ->]. auto.
+Qed.
+
+Definition notslash (c : ascii) : bool := negb (Ascii.eqb c "/"%char).
+Definition noslash (s : string) : bool := allp notslash s.
+
+Lemma noslash_no_sep x y t : noslash x = true -> x <> (y ++ String "/"%char t)%string.
+Proof.
+  revert y. induction x as [|a x IH]; intros [|b y] H E; cbn [append noslash allp] in *; try discriminate.
+  - injection E as -> _. cbn in H. discriminate.
+  - injection E as -> E. apply andb_true_iff in H as [_ H]. exact (IH y H E).
+Qed.
+
+Lemma join_cons2 x y r : join_slash (x :: y :: r) = (x ++ String "/"%char (join_slash (y :: r)))%string.
+Proof. reflexivity. Qed.
+
+Lemma join_inj : forall l1 l2, l1 <> [] -> l2 <> [] ->
+  (forall x, In x l1 -> noslash x = true) -> (forall x, In x l2 -> noslash x = true) ->
+  join_slash l1 = join_slash l2 -> l1 = l2.
+Proof.
+  induction l1 as [|x l1 IH]; intros [|y l2] N1 N2 H1 H2 E; try contradiction.
+  destruct l1 as [|x' l1], l2 as [|y' l2].
+  - cbn in E. subst. reflexivity.
+  - rewrite join_cons2 in E. cbn [join_slash String.concat] in E. exfalso.
+    exact (noslash_no_sep x y _ (H1 x (or_introl eq_refl)) E).
+  - rewrite join_cons2 in E. cbn [join_slash String.concat] in E. exfalso. symmetry in E.
+    exact (noslash_no_sep y x _ (H2 y (or_introl eq_refl)) E).
+  - rewrite !join_cons2 in E.
+    apply (split_at_sep notslash "/"%char eq_refl) in E as [-> E];
+      [|apply (H1 x); left; reflexivity|apply (H2 y); left; reflexivity].
+    f_equal. apply IH; try discriminate; auto.
+    + intros z Hz. apply H1. right. exact Hz.
+    + intros z Hz. apply H2. right. exact Hz.
+Qed.
+
+Lemma sinsert_in x l z : In z (sinsert x l) <-> z = x \/ In z l.
+Proof.
+  induction l as [|y l IH]; cbn [sinsert]; [cbn; intuition|].
+  destruct (String.leb x y); cbn [In]; [intuition|]. rewrite IH. intuition.
+Qed.
+Lemma ssort_in l z : In z (ssort l) <-> In z l.
+Proof. induction l as [|x l IH]; cbn [ssort fold_right]; [tauto|]. fold (ssort l). rewrite sinsert_in, IH. cbn [In]. intuition. Qed.
+Lemma ssort_nonempty l : l <> [] -> ssort l <> [].
+Proof. destruct l as [|x l]; [contradiction|]. intros _ E. assert (In x (ssort (x :: l))) by (apply ssort_in; left; reflexivity). rewrite E in H. destruct H. Qed.
+
+Section GroupKeys.
+  Context {F : Type}.
+  Variable k2p : list (string * nat).
+  Hypothesis names_nd : NoDup (map fst k2p).
+  Hypothesis pids_nd : NoDup (map snd k2p).
+  Hypothesis names_noslash : forall n, In n (map fst k2p) -> noslash n = true.
+
+  Lemma nm_in pid : In pid (map snd k2p) -> In (nm k2p pid) (map fst k2p).
+  Proof.
+    intros H. destruct (named_lookup k2p names_nd pids_nd pid H) as (_ & _ & Hl).
+    rewrite (k2p_map_id k2p names_nd) in Hl.
+    apply (dget_some_in String.eqb String.eqb_eq) in Hl. apply in_map_iff. exists (nm k2p pid, pid). auto.
+  Qed.
+
+  Theorem gkeys_nodup (s : opt_state (F:=F)) :
+    (forall g pid, In g s -> In pid (g_pids g) -> In pid (map snd k2p)) ->
+    NoDup (List.concat (map (@g_pids F) s)) -> (forall g, In g s -> g_pids g <> []) ->
+    NoDup (map (gkey k2p) s).
+  Proof.
+    induction s as [|g s IH]; intros Hn Hnd Hne; [constructor|]. cbn [map List.concat] in *. constructor.
+    - intros Hin. apply in_map_iff in Hin as (g' & E & Hg').
+      assert (Hl : ssort (map (nm k2p) (g_pids g')) = ssort (map (nm k2p) (g_pids g))).
+      { apply join_inj; [| | | |exact E].
+        - apply ssort_nonempty. intros E0. apply map_eq_nil in E0. exact (Hne g' (or_intror Hg') E0).
+        - apply ssort_nonempty. intros E0. apply map_eq_nil in E0. exact (Hne g (or_introl eq_refl) E0).
+        - intros x Hx. apply (proj1 (ssort_in _ _)) in Hx. apply in_map_iff in Hx as (p & <- & Hp). apply names_noslash, nm_in. apply (Hn g'); [right; exact Hg'|exact Hp].
+        - intros x Hx. apply (proj1 (ssort_in _ _)) in Hx. apply in_map_iff in Hx as (p & <- & Hp). apply names_noslash, nm_in. apply (Hn g); [left; reflexivity|exact Hp]. }
+      destruct (g_pids g) as [|p r] eqn:Ep; [exact (Hne g (or_introl eq_refl) Ep)|].
+      assert (Hp : In (nm k2p p) (ssort (map (nm k2p) (g_pids g')))) by (rewrite Hl; apply ssort_in; left; reflexivity).
+      apply (proj1 (ssort_in _ _)) in Hp. apply in_map_iff in Hp as (p' & E' & Hp').
+      assert (p' = p).
+      { apply (nm_inj k2p names_nd pids_nd); [apply (Hn g'); [right; exact Hg'|exact Hp']|apply (Hn g); [left; reflexivity|rewrite Ep; left; reflexivity]|exact E']. }
+      subst p'. apply (NoDup_app_disj _ _ Hnd p); [left; reflexivity|].
+      apply in_concat. exists (g_pids g'). split; [apply in_map; exact Hg'|exact Hp'].
+    - apply IH.
+      + intros g' pid Hg'. apply (Hn g'). right. exact Hg'.
+      + apply NoDup_app_r in Hnd. exact Hnd.
+      + intros g' Hg'. apply Hne. right. exact Hg'.
+  Qed.
+End GroupKeys.
+
+(* ========================================================================================== *)
+(* statements as exported by props/C09.v                                                        *)
+Lemma wf_reachable F (k2p : list (string * nat)) (Op : ops F) (s : opt_state (F:=F)) :
+  wf_state k2p s -> wf_state k2p (fresh_over Op s) /\ forall h, wf_state k2p (run Op h s).
+Proof. intros W. split; [exact (fresh_wf k2p Op s W)|intros h; exact (run_wf k2p Op h s W)]. Qed.
+
+Lemma saved_keys_unique_full F (fkey : Type) (fkey_eqb : fkey -> fkey -> bool) (dumps : list key -> fkey) (loads : fkey -> option (list key)) :
+  (forall a b, fkey_eqb a b = true <-> a = b) -> (forall p, loads (dumps p) = Some p) ->
+  forall k2p : list (string * nat), NoDup (map fst k2p) -> NoDup (map snd k2p) ->
+  forall sk : opt_state (F:=F),
+    wf_state k2p sk ->
+    save_ckpt fkey fkey_eqb dumps k2p sk = Ok (own_ckpt fkey fkey_eqb dumps k2p sk)
+    /\ NoDup (map fst (ck_state (own_ckpt fkey fkey_eqb dumps k2p sk)))
+    /\ (forall name fl, In (name, fl) (ck_state (own_ckpt fkey fkey_eqb dumps k2p sk)) -> NoDup (map fst fl))
+    /\ NoDup (map fst (ck_groups (own_ckpt fkey fkey_eqb dumps k2p sk)))
+    /\ (forall g pid b, In g sk ->
+          keys_of fkey fkey_eqb dumps (pobj g pid b) = map dumps (ppaths (playout g pid) (is_head g pid))).
+Proof.
+  intros H1 H2 k2p N1 N2 sk W. split.
+  - exact (save_own fkey fkey_eqb dumps k2p N1 N2 sk W).
+  - exact (saved_keys_unique fkey fkey_eqb dumps loads H1 H2 k2p N1 N2 sk W).
+Qed.
+
+Lemma load_rejects_unknown_or_stateless F (fkey : Type) (fkey_eqb : fkey -> fkey -> bool) (dumps : list key -> fkey)
+      (loads : fkey -> option (list key)) (k2p : list (string * nat)) (s : opt_state (F:=F)) (ck : ckpt (F:=F) fkey) pre name fl post s1 :
+  ck_state ck = pre ++ (name, fl) :: post ->
+  load_state fkey fkey_eqb dumps loads k2p s pre = Ok s1 ->
+  (dget String.eqb name (k2p_map k2p) = None
+   \/ exists pid, dget String.eqb name (k2p_map k2p) = Some pid /\ forall g, In g s -> in_state g pid = false) ->
+  load_ckpt fkey fkey_eqb dumps loads k2p s ck = Raise KeyError.
+Proof.
+  intros H1 H2 [H3|(pid & H3 & H4)].
+  - exact (load_rejects_unknown_param fkey fkey_eqb dumps loads k2p s ck pre name fl post s1 H1 H2 H3).
+  - exact (load_rejects_stateless_param fkey fkey_eqb dumps loads k2p s ck pre name fl post pid s1 H1 H2 H3 H4).
+Qed.
+
+Lemma hypotheses_satisfiable :
+  (NoDup (map fst ex_k2p) /\ NoDup (map snd ex_k2p))
+  /\ wf_state ex_k2p ex_s
+  /\ ((forall a b, xkey_eqb a b = true <-> a = b) /\ (forall p, x_loads (x_dumps p) = Some p))
+  /\ exists ck s',
+       save_ckpt xkey xkey_eqb x_dumps ex_k2p (run zops (firstn 1 ex_h) ex_s) = Ok ck
+       /\ load_ckpt xkey xkey_eqb x_dumps x_loads ex_k2p (fresh_over zops (run zops (firstn 1 ex_h) ex_s)) ck = Ok s'
+       /\ map forget (run zops (skipn 1 ex_h) s') = map forget (run zops ex_h ex_s).
+Proof. exact (conj ex_names (conj ex_wf (conj (conj xkey_eqb_eq x_loads_dumps) ex_resume))). Qed.
